@@ -54,3 +54,1642 @@ fn c04_smoke_insert_read() {
     std::mem::forget(back);
     std::mem::forget(s);
 }
+
+// ===========================================================================
+// C04 -- history harnesses over Storage<ArrStorage>
+// ===========================================================================
+//
+// Oracle: `C04Model`, a reference model in plain arrays (per storage index:
+// live flag, size, bytes), written from the property text:
+//   insert          new index (never one that is live), reads back the bytes
+//   insert_bytes_at bytes [off, off+n) overwritten, value grows (zero filled gap) if needed
+//   replace         value == bytes
+//   resize          prefix kept, growth zero filled
+//   move_at         bytes [from, from+n) copied to [to, to+n), source bytes not covered by the
+//                   destination become 0, value grows if needed
+//   remove          index no longer readable
+//   optimize        nothing changes, file length == 24 + sum(16 + size), no free region
+//   reopen          nothing changes (values, free regions), next insert gets a non-live index
+// After EVERY step (`c04_check_all`): every live index reads back its model
+// bytes, every dead index returns Err, the file is exactly tiled by the version
+// record, the records of the live indexes and the free regions (headers and
+// value bytes checked on the raw bytes, regions pairwise disjoint, lengths add
+// up to the file length), free_size == sum of free regions, and no write
+// started beyond the end of the file or straddled it (`ArrStorage::bad_write`,
+// the H-pre obligation of DESIGN.md).
+//
+// Two measured limits of CBMC shape these harnesses (details in the report):
+//  * the two BTree indexes of `StorageRecords` cannot be executed (10 GB
+//    exhausted by ONE `free_size_pos.entry(s).or_default().insert(p)`), so the
+//    six functions touching them are replaced by the contract model in
+//    storage_records_h.rs; all of `Storage` and the record-table half of
+//    `StorageRecords` are the real code;
+//  * a symbolic value size makes every `StorageData::write` a memcpy of
+//    symbolic length to a symbolic offset: one such `insert_bytes` after a
+//    5-operation prefix exhausts 10 GB. Sizes, offsets and targets are therefore
+//    enumerated (boundary values of every split / no-split decision: x-1, x,
+//    x+1 around the 16-byte header), each run with concrete layout; the stored
+//    bytes, the partial-read window and the compared byte positions are symbolic.
+// `alloc::slice::stable_sort` (behind `sort_by_key` in `records()`) is replaced
+// by an insertion sort (std's small-sort networks did not finish in symex).
+// All harnesses need `--max-field-sensitivity-array-size 200` (registry key
+// cbmc=): without it the 192-byte buffer is not constant-propagated and a
+// 5-operation concrete prefix alone takes 108 s instead of 6 s.
+
+use crate::storage::storage_records::verif_h as rec_h;
+use crate::verif_support::ARR_CAP;
+
+pub(crate) const C04_NV: usize = 6; // storage indexes 1..=6 are modelled
+pub(crate) const C04_MAXV: usize = 48; // largest modelled value
+pub(crate) const C04_MAXP: usize = 33; // largest payload of one operation
+
+pub(crate) const C04_INSERT: u8 = 0;
+pub(crate) const C04_WRITE_AT: u8 = 1;
+pub(crate) const C04_REPLACE: u8 = 2;
+pub(crate) const C04_RESIZE: u8 = 3;
+pub(crate) const C04_MOVE: u8 = 4;
+pub(crate) const C04_REMOVE: u8 = 5;
+pub(crate) const C04_OPTIMIZE: u8 = 6;
+
+#[derive(Clone, Copy)]
+pub(crate) struct C04Model {
+    live: [bool; C04_NV + 1],
+    size: [usize; C04_NV + 1],
+    bytes: [[u8; C04_MAXV]; C04_NV + 1],
+}
+
+impl C04Model {
+    fn new() -> Self {
+        Self {
+            live: [false; C04_NV + 1],
+            size: [0; C04_NV + 1],
+            bytes: [[0; C04_MAXV]; C04_NV + 1],
+        }
+    }
+
+    fn live_count(&self) -> usize {
+        let mut n = 0;
+        let mut i = 1;
+        while i <= C04_NV {
+            if self.live[i] {
+                n += 1;
+            }
+            i += 1;
+        }
+        n
+    }
+
+    fn total(&self) -> usize {
+        let mut n = 0;
+        let mut i = 1;
+        while i <= C04_NV {
+            if self.live[i] {
+                n += 16 + self.size[i];
+            }
+            i += 1;
+        }
+        n
+    }
+
+    // invariant: bytes[t][i] == 0 for i >= size[t]
+    // (bulk slice operations instead of loops: memcpy / memset need no unwinding)
+    fn insert(&mut self, t: usize, n: usize, p: &[u8; C04_MAXP]) {
+        self.live[t] = true;
+        self.size[t] = n;
+        self.bytes[t] = [0; C04_MAXV];
+        self.bytes[t][..n].copy_from_slice(&p[..n]);
+    }
+
+    fn write_at(&mut self, t: usize, off: usize, n: usize, p: &[u8; C04_MAXP]) {
+        self.bytes[t][off..off + n].copy_from_slice(&p[..n]);
+        if off + n > self.size[t] {
+            self.size[t] = off + n;
+        }
+    }
+
+    fn resize(&mut self, t: usize, n: usize) {
+        self.bytes[t][n..].fill(0);
+        self.size[t] = n;
+    }
+
+    fn move_at(&mut self, t: usize, from: usize, to: usize, n: usize) {
+        let old = self.bytes[t];
+        self.bytes[t][from..from + n].fill(0);
+        self.bytes[t][to..to + n].copy_from_slice(&old[from..from + n]);
+        if to + n > self.size[t] {
+            self.size[t] = to + n;
+        }
+    }
+}
+
+fn c04_expect_err<T>(r: Result<T, DbError>, msg: &'static str) {
+    match r {
+        Ok(v) => {
+            std::mem::forget(v);
+            panic!("{}", msg);
+        }
+        Err(e) => std::mem::forget(e),
+    }
+}
+
+/// Every live index reads back its model bytes; every dead index is unreadable.
+fn c04_check_values<D: StorageData>(s: &Storage<D>, m: &C04Model) {
+    let mut idx = 1usize;
+    while idx <= C04_NV {
+        let si = StorageIndex(idx as u64);
+        let live = m.live[idx];
+        match s.value_as_bytes(si) {
+            Ok(v) => {
+                assert!(live, "removed / never created index is readable");
+                assert!(v.len() == m.size[idx], "value length differs from the model");
+                let j: usize = kani::any();
+                if j < v.len() && j < C04_MAXV {
+                    assert!(v[j] == m.bytes[idx][j], "value byte differs from the model");
+                }
+                std::mem::forget(v);
+            }
+            Err(e) => {
+                std::mem::forget(e);
+                assert!(!live, "value_as_bytes fails on a live index");
+            }
+        }
+        idx += 1;
+    }
+    // index 0 heads the free-index list and marks free records: never a value
+    c04_expect_err(s.value_size(StorageIndex(0)), "index 0 is readable");
+}
+
+/// Partial reads: `value_as_bytes_at_size(idx, off, n)` is Ok with the model
+/// bytes iff idx is live and off + n <= size; `value_size` agrees with the model.
+fn c04_check_partial_read<D: StorageData>(s: &Storage<D>, m: &C04Model) {
+    let idx: usize = kani::any();
+    kani::assume(idx <= C04_NV);
+    let off: usize = kani::any();
+    let n: usize = kani::any();
+    kani::assume(off <= C04_MAXV + 1 && n <= C04_MAXV + 1);
+    match s.value_size(StorageIndex(idx as u64)) {
+        Ok(sz) => assert!(m.live[idx] && sz == m.size[idx] as u64, "value_size differs from the model"),
+        Err(e) => {
+            std::mem::forget(e);
+            assert!(!m.live[idx], "value_size fails on a live index");
+        }
+    }
+    let r = s.value_as_bytes_at_size(StorageIndex(idx as u64), off as u64, n as u64);
+    let expect_ok = m.live[idx] && off + n <= m.size[idx];
+    match r {
+        Ok(v) => {
+            assert!(expect_ok, "partial read succeeds outside the value / on a dead index");
+            assert!(v.len() == n, "partial read has the wrong length");
+            let j: usize = kani::any();
+            if j < n {
+                assert!(v[j] == m.bytes[idx][off + j], "partial read byte differs from the model");
+            }
+            std::mem::forget(v);
+        }
+        Err(e) => {
+            std::mem::forget(e);
+            assert!(!expect_ok, "partial read inside a live value fails");
+        }
+    }
+}
+
+fn c04_rd64(buf: &[u8; ARR_CAP], p: usize) -> u64 {
+    u64::from_le_bytes([
+        buf[p],
+        buf[p + 1],
+        buf[p + 2],
+        buf[p + 3],
+        buf[p + 4],
+        buf[p + 5],
+        buf[p + 6],
+        buf[p + 7],
+    ])
+}
+
+/// The file is exactly tiled by the version record, the records of the live
+/// indexes and the regions of the free index: every such region lies inside
+/// the file, carries the right header (and value bytes) on disk, the regions
+/// are pairwise disjoint and their lengths add up to the file length. (This is
+/// what a reader that walks the headers from offset 24 -- `read_records` --
+/// relies on.)
+fn c04_check_disk(s: &Storage<ArrStorage>, m: &C04Model) {
+    const NR: usize = C04_NV + rec_h::C04_FCAP;
+    let len = s.data.len;
+    let buf = &s.data.buf;
+    assert!(!s.data.bad_write, "a write started beyond the end of the file or straddled it");
+    assert!(len >= 24 && len <= ARR_CAP, "version record missing");
+    assert!(
+        c04_rd64(buf, 0) == 0 && c04_rd64(buf, 8) == 8 && c04_rd64(buf, 16) == CURRENT_VERSION,
+        "version record damaged"
+    );
+    let fm = rec_h::c04_fm();
+    let mut rpos = [0usize; NR];
+    let mut rend = [0usize; NR];
+    let mut n = 0usize;
+    let mut sum = 24usize;
+    let mut free_sum = 0u64;
+    let mut i = 1;
+    while i <= C04_NV {
+        if m.live[i] {
+            let r = ok(s.records.record(i as u64));
+            assert!(r.index == i as u64, "record table slot holds another index");
+            assert!(r.size == m.size[i] as u64, "record table size differs from the model");
+            assert!(r.pos >= 24 && r.pos + 16 + r.size <= len as u64, "record outside the file");
+            let p = r.pos as usize;
+            assert!(c04_rd64(buf, p) == i as u64, "record header on disk has the wrong index");
+            assert!(c04_rd64(buf, p + 8) == r.size, "record header on disk has the wrong size");
+            let j: usize = kani::any();
+            if j < m.size[i] && j < C04_MAXV {
+                assert!(buf[p + 16 + j] == m.bytes[i][j], "value byte on disk differs from the model");
+            }
+            rpos[n] = p;
+            rend[n] = p + 16 + m.size[i];
+            sum += 16 + m.size[i];
+            n += 1;
+        }
+        i += 1;
+    }
+    let mut k = 0;
+    while k < rec_h::C04_FCAP {
+        if k < fm.n {
+            assert!(
+                fm.pos[k] >= 24 && fm.pos[k] + 16 + fm.size[k] <= len as u64,
+                "free region outside the file"
+            );
+            let p = fm.pos[k] as usize;
+            assert!(c04_rd64(buf, p) == 0, "free region has no free-record header on disk");
+            assert!(c04_rd64(buf, p + 8) == fm.size[k], "free-record header on disk has the wrong size");
+            rpos[n] = p;
+            rend[n] = p + 16 + fm.size[k] as usize;
+            sum += 16 + fm.size[k] as usize;
+            free_sum += fm.size[k];
+            n += 1;
+        }
+        k += 1;
+    }
+    assert!(sum == len, "records and free regions do not add up to the file length");
+    let mut x = 0;
+    while x < NR {
+        let mut y = x + 1;
+        while y < NR {
+            if y < n {
+                assert!(rend[x] <= rpos[y] || rend[y] <= rpos[x], "two records / free regions overlap");
+            }
+            y += 1;
+        }
+        x += 1;
+    }
+    assert!(free_sum == s.records.free_size(), "free_size is not the sum of the free regions");
+}
+
+fn c04_check_all(s: &Storage<ArrStorage>, m: &C04Model) {
+    c04_check_values(s, m);
+    c04_check_disk(s, m);
+}
+
+/// Observable effect of one step (for `kani::cover!` in the harnesses).
+#[derive(Clone, Copy)]
+pub(crate) struct C04Fx {
+    pub ok: bool,
+    pub t: usize,
+    pub len0: usize,
+    pub len1: usize,
+    pub fc0: usize,
+    pub fc1: usize,
+    pub fs0: u64,
+    pub fs1: u64,
+    pub pos0: u64,
+    pub pos1: u64,
+}
+
+impl C04Fx {
+    fn same_place(&self) -> bool {
+        self.ok && self.pos0 == self.pos1 && self.len0 == self.len1
+    }
+    fn moved_to_end(&self) -> bool {
+        self.ok && self.pos1 == self.len0 as u64 && self.pos0 != self.pos1
+    }
+    fn moved_into_free(&self) -> bool {
+        self.ok && self.pos1 != self.pos0 && self.pos1 < self.len0 as u64 && self.len1 == self.len0
+    }
+}
+
+fn c04_pos_of(s: &Storage<ArrStorage>, t: usize) -> u64 {
+    match s.records.record(t as u64) {
+        Ok(r) => r.pos,
+        Err(e) => {
+            std::mem::forget(e);
+            u64::MAX
+        }
+    }
+}
+
+/// One operation on the real storage, mirrored on the model, followed by the
+/// full check. Target and sizes are concrete in the caller; the payload bytes
+/// are symbolic.
+fn c04_step(
+    s: &mut Storage<ArrStorage>,
+    m: &mut C04Model,
+    op: u8,
+    t: usize,
+    a: usize,
+    b: usize,
+    c: usize,
+) -> C04Fx {
+    let payload: [u8; C04_MAXP] = kani::any();
+    let live = m.live[t];
+    let mut fx = C04Fx {
+        ok: false,
+        t,
+        len0: s.data.len,
+        len1: 0,
+        fc0: rec_h::c04_fm().n,
+        fc1: 0,
+        fs0: s.records.free_size(),
+        fs1: 0,
+        pos0: c04_pos_of(s, t),
+        pos1: 0,
+    };
+    // bound: the file stays within the array of ArrStorage (an operation grows
+    // the file by at most one record header + the new size of its target)
+    let old = if live { m.size[t] } else { 0 };
+    let grown = if op == C04_INSERT || op == C04_RESIZE {
+        a
+    } else if op == C04_WRITE_AT {
+        std::cmp::max(old, a + b)
+    } else if op == C04_REPLACE {
+        std::cmp::max(old, a)
+    } else if op == C04_MOVE {
+        std::cmp::max(old, b + c)
+    } else {
+        0
+    };
+    assert!(grown <= C04_MAXV, "harness bound: value larger than the model");
+    if op == C04_INSERT {
+        let idx = ok(s.insert_bytes(&payload[..a])).0 as usize;
+        assert!(idx >= 1 && idx <= C04_NV, "insert returned an index outside the modelled range");
+        assert!(!m.live[idx], "insert returned an index that is still live");
+        m.insert(idx, a, &payload);
+        fx.t = idx;
+        fx.ok = true;
+    } else if op == C04_WRITE_AT {
+        let r = s.insert_bytes_at(StorageIndex(t as u64), a as u64, &payload[..b]);
+        if live {
+            ok(r);
+            m.write_at(t, a, b, &payload);
+            fx.ok = true;
+        } else {
+            c04_expect_err(r, "insert_bytes_at on a dead index succeeded");
+        }
+    } else if op == C04_REPLACE {
+        let r = s.replace_with_bytes(StorageIndex(t as u64), &payload[..a]);
+        if live {
+            ok(r);
+            m.write_at(t, 0, a, &payload);
+            m.resize(t, a);
+            fx.ok = true;
+        } else {
+            c04_expect_err(r, "replace_with_bytes on a dead index succeeded");
+        }
+    } else if op == C04_RESIZE {
+        let r = s.resize_value(StorageIndex(t as u64), a as u64);
+        if live {
+            ok(r);
+            m.resize(t, a);
+            fx.ok = true;
+        } else {
+            c04_expect_err(r, "resize_value on a dead index succeeded");
+        }
+    } else if op == C04_MOVE {
+        let r = s.move_at(StorageIndex(t as u64), a as u64, b as u64, c as u64);
+        if live && a + c <= m.size[t] {
+            ok(r);
+            m.move_at(t, a, b, c);
+            fx.ok = true;
+        } else {
+            c04_expect_err(r, "move_at from outside the value / on a dead index succeeded");
+        }
+    } else if op == C04_REMOVE {
+        let r = s.remove(StorageIndex(t as u64));
+        if live {
+            ok(r);
+            m.live[t] = false;
+            fx.ok = true;
+        } else {
+            c04_expect_err(r, "remove of a dead index succeeded");
+        }
+    } else {
+        ok(s.optimize_storage());
+        assert!(s.data.len == 24 + m.total(), "file holds unused space after optimize_storage");
+        assert!(rec_h::c04_fm().n == 0, "free regions left after optimize_storage");
+        fx.ok = true;
+    }
+    fx.len1 = s.data.len;
+    fx.fc1 = rec_h::c04_fm().n;
+    fx.fs1 = s.records.free_size();
+    fx.pos1 = c04_pos_of(s, fx.t);
+    c04_check_all(s, m);
+    fx
+}
+
+/// Inserts `n` symbolic bytes (prefix construction).
+fn c04_put(s: &mut Storage<ArrStorage>, m: &mut C04Model, n: usize) -> usize {
+    let payload: [u8; C04_MAXP] = kani::any();
+    let idx = ok(s.insert_bytes(&payload[..n])).0 as usize;
+    assert!(idx >= 1 && idx <= C04_NV && !m.live[idx], "prefix insert returned a bad index");
+    m.insert(idx, n, &payload);
+    idx
+}
+
+fn c04_del(s: &mut Storage<ArrStorage>, m: &mut C04Model, t: usize) {
+    ok(s.remove(StorageIndex(t as u64)));
+    m.live[t] = false;
+}
+
+/// Reopens the storage from a copy of its bytes (`Storage::with_data`, i.e.
+/// `read_records`, `set_record`, `rebuild_free_index`) and checks that the
+/// reopened storage shows the same values, the same free regions, and hands
+/// out a non-live index on the next insert.
+fn c04_reopen_check(s: &Storage<ArrStorage>, m: &C04Model) {
+    let mut m = *m;
+    let fm = rec_h::c04_fm();
+    let saved_n = fm.n;
+    let saved_pos = fm.pos;
+    let saved_size = fm.size;
+    let saved_total = fm.total;
+    fm.reset();
+    let copy = ArrStorage {
+        buf: s.data.buf,
+        len: s.data.len,
+        flushes: 0,
+        calls: 0,
+        fail_at: u32::MAX,
+        bad_write: false,
+    };
+    let mut s2 = ok(Storage::<ArrStorage>::with_data(copy));
+    assert!(s2.data.calls == 0, "reopening a current-version file wrote to it");
+    assert!(s2.version == CURRENT_VERSION, "version lost on reopen");
+    let fm = rec_h::c04_fm();
+    assert!(fm.n == saved_n, "reopen found a different number of free regions");
+    let mut i = 0;
+    while i < rec_h::C04_FCAP {
+        if i < saved_n {
+            assert!(fm.has(saved_pos[i], saved_size[i]), "free region lost on reopen");
+        }
+        i += 1;
+    }
+    c04_check_all(&s2, &m);
+    // the reopened storage is usable: the free-index list was rebuilt
+    if m.live_count() < C04_NV && s2.data.len + 16 + 1 <= ARR_CAP {
+        let payload: [u8; C04_MAXP] = kani::any();
+        let idx = ok(s2.insert_bytes(&payload[..1])).0 as usize;
+        assert!(idx >= 1 && idx <= C04_NV, "insert after reopen returned an index outside the table");
+        assert!(!m.live[idx], "insert after reopen returned a live index");
+        m.insert(idx, 1, &payload);
+        c04_check_all(&s2, &m);
+    }
+    std::mem::forget(s2);
+    let fm = rec_h::c04_fm();
+    fm.n = saved_n;
+    fm.pos = saved_pos;
+    fm.size = saved_size;
+    fm.total = saved_total;
+}
+
+/// Final phase required by the property: defragment, no unused space, all
+/// values intact (whole and partial reads).
+fn c04_finale(s: &mut Storage<ArrStorage>, m: &mut C04Model) {
+    ok(s.optimize_storage());
+    assert!(s.data.len == 24 + m.total(), "file holds unused space after optimize_storage");
+    assert!(rec_h::c04_fm().n == 0, "free regions left after optimize_storage");
+    c04_check_all(s, m);
+    c04_check_partial_read(s, m);
+}
+
+/// Builds a storage state directly: file image (headers, symbolic value bytes,
+/// symbolic garbage inside free regions) + record table through the real
+/// `set_record` / `rebuild_free_index`, i.e. the state `Storage::with_data`
+/// reconstructs from that image. Building it through `insert_bytes` / `remove`
+/// costs ~25 s of symex per scenario; `c04_check_all` on the built state (first
+/// thing `c04_step`'s callers may run) validates that image, table, free index
+/// and model agree, and the harnesses `c04_hist_from_empty`,
+/// `c04_hist_index_reuse`, `c04_reopen_*` connect such states to real histories.
+/// `layout[i] = (index, size)`, index 0 = free region.
+fn c04_build(layout: &[(u64, usize)]) -> (Storage<ArrStorage>, C04Model) {
+    rec_h::c04_fm().reset();
+    let mut s = fresh_arr_storage();
+    // one up-front reallocation of the record table: after a realloc (memcpy)
+    // CBMC no longer constant-propagates the table slots and explores the
+    // "index is valid" branch of every lookup both ways
+    rec_h::c04_reserve_table(&mut s.records, 8);
+    let mut m = C04Model::new();
+    let mut pos = 24usize;
+    let mut i = 0;
+    while i < layout.len() {
+        let (index, size) = layout[i];
+        let payload: [u8; C04_MAXP] = kani::any();
+        s.data.buf[pos..pos + 8].copy_from_slice(&index.to_le_bytes());
+        s.data.buf[pos + 8..pos + 16].copy_from_slice(&(size as u64).to_le_bytes());
+        s.data.buf[pos + 16..pos + 16 + size].copy_from_slice(&payload[..size]);
+        if index != 0 {
+            m.insert(index as usize, size, &payload);
+        }
+        s.records.set_record(StorageRecord {
+            index,
+            pos: pos as u64,
+            size: size as u64,
+        });
+        pos += 16 + size;
+        i += 1;
+    }
+    s.data.len = pos;
+    s.records.rebuild_free_index();
+    (s, m)
+}
+
+/// Prefix 0: empty storage.
+/// Prefix 1: [A:8][free 33][C:8][D:1]            indexes A=1 C=3 D=4 (2 free), len 138
+/// Prefix 2: [A:0][free 16][C:8][free 17][E:1]   indexes A=1 C=3 E=5 (2, 4 free), len 146
+/// Prefix 3: [A:16][B:8]                         len 80
+/// Prefix 4: [A:33][B:1]                         len 90
+/// Prefix 5: [A:8][B:16][C:8][D:17][E:1]         len 154
+/// Prefix 6: [free 8][A:1]                       len 65
+fn c04_prefix(kind: u8) -> (Storage<ArrStorage>, C04Model) {
+    if kind == 1 {
+        c04_build(&[(1, 8), (0, 33), (3, 8), (4, 1)])
+    } else if kind == 2 {
+        c04_build(&[(1, 0), (0, 16), (3, 8), (0, 17), (5, 1)])
+    } else if kind == 3 {
+        c04_build(&[(1, 16), (2, 8)])
+    } else if kind == 4 {
+        c04_build(&[(1, 33), (2, 1)])
+    } else if kind == 5 {
+        c04_build(&[(1, 8), (2, 16), (3, 8), (4, 17), (5, 1)])
+    } else if kind == 6 {
+        c04_build(&[(0, 8), (1, 1)])
+    } else {
+        c04_build(&[])
+    }
+}
+
+/// Runs `op(t, a, b, c)` + the final phase on a freshly built prefix state.
+fn c04_scenario(prefix: u8, op: u8, t: usize, a: usize, b: usize, c: usize) -> C04Fx {
+    let (mut w, mut m) = c04_prefix(prefix);
+    let fx = c04_step(&mut w, &mut m, op, t, a, b, c);
+    c04_finale(&mut w, &mut m);
+    std::mem::forget(w);
+    fx
+}
+
+/// Replaces `alloc::slice::stable_sort` (what `sort_by_key` calls; std's
+/// driftsort / small-sort networks explode in symex) by a plain insertion sort
+/// on the same slice: same result for any input (stable). Part of the claim of
+/// every harness that reaches `StorageRecords::records()`.
+pub(crate) fn c04_stable_sort_stub<T, F: FnMut(&T, &T) -> bool>(v: &mut [T], mut is_less: F) {
+    let n = v.len();
+    let mut i = 1;
+    while i < n {
+        let mut j = i;
+        while j > 0 && is_less(&v[j], &v[j - 1]) {
+            v.swap(j, j - 1);
+            j -= 1;
+        }
+        i += 1;
+    }
+}
+
+//@ id=C04 tier=quick timeout=1200 cbmc="--max-field-sensitivity-array-size 200" args="--no-assertion-reach-checks" bounds="prefix [A:8][free 33][C:8][D:1]; insert of 33 bytes, insert of 17 bytes; stored bytes, partial-read window, compared byte positions symbolic; free index = contract model" desc="insert into a free region: exact fit (index of the removed value reused) and split that leaves an empty free record: values read back, dead indexes unreadable, file tiled by records and free regions, no out-of-file write; then optimize_storage: no unused space, values intact" kernel="Storage::insert_bytes,Storage::append,Storage::write_record,Storage::free_a_region,Storage::optimize_storage,Storage::shrink_index,Storage::truncate,Storage::value_as_bytes,Storage::value_as_bytes_at_size,Storage::value_size,StorageRecords::new_record,StorageRecords::remove_index,StorageRecords::records,StorageRecords::record,StorageRecords::set_pos,StorageRecords::set_size"
+#[kani::proof]
+#[kani::stub(std::fmt::format, crate::verif_support::fmt_stub)]
+#[kani::stub(crate::DbError::new, crate::verif_support::dberror_new_stub)]
+#[kani::stub(crate::storage::storage_records::StorageRecords::take_free, crate::storage::storage_records::verif_h::c04_take_free_model)]
+#[kani::stub(crate::storage::storage_records::StorageRecords::take_free_after, crate::storage::storage_records::verif_h::c04_take_free_after_model)]
+#[kani::stub(crate::storage::storage_records::StorageRecords::mark_free_compact, crate::storage::storage_records::verif_h::c04_mark_free_compact_model)]
+#[kani::stub(crate::storage::storage_records::StorageRecords::mark_free, crate::storage::storage_records::verif_h::c04_mark_free_model)]
+#[kani::stub(crate::storage::storage_records::StorageRecords::clear_free, crate::storage::storage_records::verif_h::c04_clear_free_model)]
+#[kani::stub(crate::storage::storage_records::StorageRecords::free_size, crate::storage::storage_records::verif_h::c04_free_size_model)]
+#[kani::stub(alloc::slice::stable_sort, c04_stable_sort_stub)]
+#[kani::unwind(50)]
+fn c04_hist_insert_exact() {
+    let f1 = c04_scenario(1, C04_INSERT, 1, 33, 0, 0);
+    let f2 = c04_scenario(1, C04_INSERT, 1, 17, 0, 0);
+    kani::cover!(f1.fc1 == 0 && f1.len1 == f1.len0 && f1.t == 2, "exact fit, removed index reused");
+    kani::cover!(f2.fc1 == 1 && f2.fs1 == 0 && f2.len1 == f2.len0, "split, remainder is an empty free record");
+    kani::cover!(true, "end of harness reachable");
+}
+
+//@ id=C04 tier=quick timeout=1200 cbmc="--max-field-sensitivity-array-size 200" args="--no-assertion-reach-checks" bounds="prefix [A:8][free 33][C:8][D:1]; insert of 16 bytes, insert of 0 bytes; stored bytes, partial-read window, compared byte positions symbolic; free index = contract model" desc="insert into a free region with a remainder of 1 byte / of an empty value: values read back, dead indexes unreadable, file tiled by records and free regions, no out-of-file write; then optimize_storage: no unused space, values intact" kernel="Storage::insert_bytes,Storage::append,Storage::write_record,Storage::free_a_region,Storage::optimize_storage,Storage::shrink_index,Storage::truncate,Storage::value_as_bytes,Storage::value_as_bytes_at_size,Storage::value_size,StorageRecords::new_record,StorageRecords::remove_index,StorageRecords::records,StorageRecords::record,StorageRecords::set_pos,StorageRecords::set_size"
+#[kani::proof]
+#[kani::stub(std::fmt::format, crate::verif_support::fmt_stub)]
+#[kani::stub(crate::DbError::new, crate::verif_support::dberror_new_stub)]
+#[kani::stub(crate::storage::storage_records::StorageRecords::take_free, crate::storage::storage_records::verif_h::c04_take_free_model)]
+#[kani::stub(crate::storage::storage_records::StorageRecords::take_free_after, crate::storage::storage_records::verif_h::c04_take_free_after_model)]
+#[kani::stub(crate::storage::storage_records::StorageRecords::mark_free_compact, crate::storage::storage_records::verif_h::c04_mark_free_compact_model)]
+#[kani::stub(crate::storage::storage_records::StorageRecords::mark_free, crate::storage::storage_records::verif_h::c04_mark_free_model)]
+#[kani::stub(crate::storage::storage_records::StorageRecords::clear_free, crate::storage::storage_records::verif_h::c04_clear_free_model)]
+#[kani::stub(crate::storage::storage_records::StorageRecords::free_size, crate::storage::storage_records::verif_h::c04_free_size_model)]
+#[kani::stub(alloc::slice::stable_sort, c04_stable_sort_stub)]
+#[kani::unwind(50)]
+fn c04_hist_insert_split() {
+    let f1 = c04_scenario(1, C04_INSERT, 1, 16, 0, 0);
+    let f2 = c04_scenario(1, C04_INSERT, 1, 0, 0, 0);
+    kani::cover!(f1.fc1 == 1 && f1.fs1 == 1 && f1.len1 == f1.len0, "split, remainder of 1 byte");
+    kani::cover!(f2.len1 == f2.len0 && f2.fs1 == 17, "empty value placed in the free region");
+    kani::cover!(true, "end of harness reachable");
+}
+
+//@ id=C04 tier=quick timeout=1200 cbmc="--max-field-sensitivity-array-size 200" args="--no-assertion-reach-checks" bounds="prefix [A:8][free 33][C:8][D:1] / [A:0][free 16][C:8][free 17][E:1]; insert of 32 bytes into the first, insert of 1 byte into the second; stored bytes, partial-read window, compared byte positions symbolic; free index = contract model" desc="insert that misses a split by one byte is appended; among two free regions the one that fits is used: values read back, dead indexes unreadable, file tiled by records and free regions, no out-of-file write; then optimize_storage: no unused space, values intact" kernel="Storage::insert_bytes,Storage::append,Storage::write_record,Storage::free_a_region,Storage::optimize_storage,Storage::shrink_index,Storage::truncate,Storage::value_as_bytes,Storage::value_as_bytes_at_size,Storage::value_size,StorageRecords::new_record,StorageRecords::remove_index,StorageRecords::records,StorageRecords::record,StorageRecords::set_pos,StorageRecords::set_size"
+#[kani::proof]
+#[kani::stub(std::fmt::format, crate::verif_support::fmt_stub)]
+#[kani::stub(crate::DbError::new, crate::verif_support::dberror_new_stub)]
+#[kani::stub(crate::storage::storage_records::StorageRecords::take_free, crate::storage::storage_records::verif_h::c04_take_free_model)]
+#[kani::stub(crate::storage::storage_records::StorageRecords::take_free_after, crate::storage::storage_records::verif_h::c04_take_free_after_model)]
+#[kani::stub(crate::storage::storage_records::StorageRecords::mark_free_compact, crate::storage::storage_records::verif_h::c04_mark_free_compact_model)]
+#[kani::stub(crate::storage::storage_records::StorageRecords::mark_free, crate::storage::storage_records::verif_h::c04_mark_free_model)]
+#[kani::stub(crate::storage::storage_records::StorageRecords::clear_free, crate::storage::storage_records::verif_h::c04_clear_free_model)]
+#[kani::stub(crate::storage::storage_records::StorageRecords::free_size, crate::storage::storage_records::verif_h::c04_free_size_model)]
+#[kani::stub(alloc::slice::stable_sort, c04_stable_sort_stub)]
+#[kani::unwind(50)]
+fn c04_hist_insert_append() {
+    let f1 = c04_scenario(1, C04_INSERT, 1, 32, 0, 0);
+    let f2 = c04_scenario(2, C04_INSERT, 1, 1, 0, 0);
+    kani::cover!(f1.len1 == f1.len0 + 48 && f1.fc1 == 1, "no fit: appended");
+    kani::cover!(f2.len1 == f2.len0 && f2.fc1 == 2 && f2.pos1 == 96, "17-byte region chosen over the 16-byte one");
+    kani::cover!(true, "end of harness reachable");
+}
+
+//@ id=C04 tier=quick timeout=1200 cbmc="--max-field-sensitivity-array-size 200" args="--no-assertion-reach-checks" bounds="prefix [A:0][free 16][C:8][free 17][E:1]; resize C (8 bytes, followed by the 17-byte free region) to 25, to 41; stored bytes, partial-read window, compared byte positions symbolic; free index = contract model" desc="growing into the following free region: remainder becomes an empty free record / region consumed completely; grown bytes are zero: values read back, dead indexes unreadable, file tiled by records and free regions, no out-of-file write; then optimize_storage: no unused space, values intact" kernel="Storage::resize_value,Storage::enlarge_value,Storage::enlarge_in_place,Storage::enlarge_move_to,Storage::enlarge_at_end,Storage::move_to_end,Storage::update_record,Storage::write_record,Storage::free_a_region,Storage::optimize_storage,Storage::shrink_index,Storage::truncate,Storage::value_as_bytes,Storage::value_as_bytes_at_size,Storage::value_size,StorageRecords::new_record,StorageRecords::remove_index,StorageRecords::records,StorageRecords::record,StorageRecords::set_pos,StorageRecords::set_size"
+#[kani::proof]
+#[kani::stub(std::fmt::format, crate::verif_support::fmt_stub)]
+#[kani::stub(crate::DbError::new, crate::verif_support::dberror_new_stub)]
+#[kani::stub(crate::storage::storage_records::StorageRecords::take_free, crate::storage::storage_records::verif_h::c04_take_free_model)]
+#[kani::stub(crate::storage::storage_records::StorageRecords::take_free_after, crate::storage::storage_records::verif_h::c04_take_free_after_model)]
+#[kani::stub(crate::storage::storage_records::StorageRecords::mark_free_compact, crate::storage::storage_records::verif_h::c04_mark_free_compact_model)]
+#[kani::stub(crate::storage::storage_records::StorageRecords::mark_free, crate::storage::storage_records::verif_h::c04_mark_free_model)]
+#[kani::stub(crate::storage::storage_records::StorageRecords::clear_free, crate::storage::storage_records::verif_h::c04_clear_free_model)]
+#[kani::stub(crate::storage::storage_records::StorageRecords::free_size, crate::storage::storage_records::verif_h::c04_free_size_model)]
+#[kani::stub(alloc::slice::stable_sort, c04_stable_sort_stub)]
+#[kani::unwind(50)]
+fn c04_hist_grow_inplace_a() {
+    let f1 = c04_scenario(2, C04_RESIZE, 3, 25, 0, 0);
+    let f2 = c04_scenario(2, C04_RESIZE, 3, 41, 0, 0);
+    kani::cover!(f1.same_place() && f1.fc1 == 2 && f1.fs1 == 16, "in place, remainder is an empty free record");
+    kani::cover!(f2.same_place() && f2.fc1 == 1, "in place, free region consumed completely");
+    kani::cover!(true, "end of harness reachable");
+}
+
+//@ id=C04 tier=quick timeout=1200 cbmc="--max-field-sensitivity-array-size 200" args="--no-assertion-reach-checks" bounds="prefix [A:0][free 16][C:8][free 17][E:1]; resize C to 24, to 26; stored bytes, partial-read window, compared byte positions symbolic; free index = contract model" desc="growing into the following free region with 1 byte left free; 1 byte too much: moved to the end, vacated place merged with both free neighbours; grown bytes are zero: values read back, dead indexes unreadable, file tiled by records and free regions, no out-of-file write; then optimize_storage: no unused space, values intact" kernel="Storage::resize_value,Storage::enlarge_value,Storage::enlarge_in_place,Storage::enlarge_move_to,Storage::enlarge_at_end,Storage::move_to_end,Storage::update_record,Storage::write_record,Storage::free_a_region,Storage::optimize_storage,Storage::shrink_index,Storage::truncate,Storage::value_as_bytes,Storage::value_as_bytes_at_size,Storage::value_size,StorageRecords::new_record,StorageRecords::remove_index,StorageRecords::records,StorageRecords::record,StorageRecords::set_pos,StorageRecords::set_size"
+#[kani::proof]
+#[kani::stub(std::fmt::format, crate::verif_support::fmt_stub)]
+#[kani::stub(crate::DbError::new, crate::verif_support::dberror_new_stub)]
+#[kani::stub(crate::storage::storage_records::StorageRecords::take_free, crate::storage::storage_records::verif_h::c04_take_free_model)]
+#[kani::stub(crate::storage::storage_records::StorageRecords::take_free_after, crate::storage::storage_records::verif_h::c04_take_free_after_model)]
+#[kani::stub(crate::storage::storage_records::StorageRecords::mark_free_compact, crate::storage::storage_records::verif_h::c04_mark_free_compact_model)]
+#[kani::stub(crate::storage::storage_records::StorageRecords::mark_free, crate::storage::storage_records::verif_h::c04_mark_free_model)]
+#[kani::stub(crate::storage::storage_records::StorageRecords::clear_free, crate::storage::storage_records::verif_h::c04_clear_free_model)]
+#[kani::stub(crate::storage::storage_records::StorageRecords::free_size, crate::storage::storage_records::verif_h::c04_free_size_model)]
+#[kani::stub(alloc::slice::stable_sort, c04_stable_sort_stub)]
+#[kani::unwind(50)]
+fn c04_hist_grow_inplace_b() {
+    let f1 = c04_scenario(2, C04_RESIZE, 3, 24, 0, 0);
+    let f2 = c04_scenario(2, C04_RESIZE, 3, 26, 0, 0);
+    kani::cover!(f1.same_place() && f1.fc1 == 2 && f1.fs1 == 17, "in place, 1 byte remains free");
+    kani::cover!(f2.moved_to_end() && f2.fc1 == 1, "moved to the end, old place merged with both neighbours");
+    kani::cover!(true, "end of harness reachable");
+}
+
+//@ id=C04 tier=quick timeout=1200 cbmc="--max-field-sensitivity-array-size 200" args="--no-assertion-reach-checks" bounds="prefix [A:8][free 33][C:8][D:1]; resize C (8 bytes, between the free region and D) to 33, to 17; stored bytes, partial-read window, compared byte positions symbolic; free index = contract model" desc="growing a value that cannot grow in place: moved into the free region, exact fit / split whose remainder merges with the vacated place; grown bytes are zero: values read back, dead indexes unreadable, file tiled by records and free regions, no out-of-file write; then optimize_storage: no unused space, values intact" kernel="Storage::resize_value,Storage::enlarge_value,Storage::enlarge_in_place,Storage::enlarge_move_to,Storage::enlarge_at_end,Storage::move_to_end,Storage::update_record,Storage::write_record,Storage::free_a_region,Storage::optimize_storage,Storage::shrink_index,Storage::truncate,Storage::value_as_bytes,Storage::value_as_bytes_at_size,Storage::value_size,StorageRecords::new_record,StorageRecords::remove_index,StorageRecords::records,StorageRecords::record,StorageRecords::set_pos,StorageRecords::set_size"
+#[kani::proof]
+#[kani::stub(std::fmt::format, crate::verif_support::fmt_stub)]
+#[kani::stub(crate::DbError::new, crate::verif_support::dberror_new_stub)]
+#[kani::stub(crate::storage::storage_records::StorageRecords::take_free, crate::storage::storage_records::verif_h::c04_take_free_model)]
+#[kani::stub(crate::storage::storage_records::StorageRecords::take_free_after, crate::storage::storage_records::verif_h::c04_take_free_after_model)]
+#[kani::stub(crate::storage::storage_records::StorageRecords::mark_free_compact, crate::storage::storage_records::verif_h::c04_mark_free_compact_model)]
+#[kani::stub(crate::storage::storage_records::StorageRecords::mark_free, crate::storage::storage_records::verif_h::c04_mark_free_model)]
+#[kani::stub(crate::storage::storage_records::StorageRecords::clear_free, crate::storage::storage_records::verif_h::c04_clear_free_model)]
+#[kani::stub(crate::storage::storage_records::StorageRecords::free_size, crate::storage::storage_records::verif_h::c04_free_size_model)]
+#[kani::stub(alloc::slice::stable_sort, c04_stable_sort_stub)]
+#[kani::unwind(50)]
+fn c04_hist_grow_relocate_a() {
+    let f1 = c04_scenario(1, C04_RESIZE, 3, 33, 0, 0);
+    let f2 = c04_scenario(1, C04_RESIZE, 3, 17, 0, 0);
+    kani::cover!(f1.moved_into_free() && f1.fc1 == 1 && f1.fs1 == 8, "moved into the free region, exact fit");
+    kani::cover!(f2.moved_into_free() && f2.fc1 == 1 && f2.fs1 == 24, "moved into the free region, remainder merged with the vacated place");
+    kani::cover!(true, "end of harness reachable");
+}
+
+//@ id=C04 tier=quick timeout=1200 cbmc="--max-field-sensitivity-array-size 200" args="--no-assertion-reach-checks" bounds="prefix [A:8][free 33][C:8][D:1]; resize C to 32, resize D (at end) to 17; stored bytes, partial-read window, compared byte positions symbolic; free index = contract model" desc="growing: moved to the end (vacated place merges with the free region before it); grown at the end of the file; grown bytes are zero: values read back, dead indexes unreadable, file tiled by records and free regions, no out-of-file write; then optimize_storage: no unused space, values intact" kernel="Storage::resize_value,Storage::enlarge_value,Storage::enlarge_in_place,Storage::enlarge_move_to,Storage::enlarge_at_end,Storage::move_to_end,Storage::update_record,Storage::write_record,Storage::free_a_region,Storage::optimize_storage,Storage::shrink_index,Storage::truncate,Storage::value_as_bytes,Storage::value_as_bytes_at_size,Storage::value_size,StorageRecords::new_record,StorageRecords::remove_index,StorageRecords::records,StorageRecords::record,StorageRecords::set_pos,StorageRecords::set_size"
+#[kani::proof]
+#[kani::stub(std::fmt::format, crate::verif_support::fmt_stub)]
+#[kani::stub(crate::DbError::new, crate::verif_support::dberror_new_stub)]
+#[kani::stub(crate::storage::storage_records::StorageRecords::take_free, crate::storage::storage_records::verif_h::c04_take_free_model)]
+#[kani::stub(crate::storage::storage_records::StorageRecords::take_free_after, crate::storage::storage_records::verif_h::c04_take_free_after_model)]
+#[kani::stub(crate::storage::storage_records::StorageRecords::mark_free_compact, crate::storage::storage_records::verif_h::c04_mark_free_compact_model)]
+#[kani::stub(crate::storage::storage_records::StorageRecords::mark_free, crate::storage::storage_records::verif_h::c04_mark_free_model)]
+#[kani::stub(crate::storage::storage_records::StorageRecords::clear_free, crate::storage::storage_records::verif_h::c04_clear_free_model)]
+#[kani::stub(crate::storage::storage_records::StorageRecords::free_size, crate::storage::storage_records::verif_h::c04_free_size_model)]
+#[kani::stub(alloc::slice::stable_sort, c04_stable_sort_stub)]
+#[kani::unwind(50)]
+fn c04_hist_grow_relocate_b() {
+    let f1 = c04_scenario(1, C04_RESIZE, 3, 32, 0, 0);
+    let f2 = c04_scenario(1, C04_RESIZE, 4, 17, 0, 0);
+    kani::cover!(f1.moved_to_end() && f1.fc1 == 1 && f1.fs1 == 57, "moved to the end, vacated place merged with the previous free region");
+    kani::cover!(f2.pos0 == f2.pos1 && f2.len1 == f2.len0 + 16, "grown at the end of the file");
+    kani::cover!(true, "end of harness reachable");
+}
+
+//@ id=C04 tier=quick timeout=1200 cbmc="--max-field-sensitivity-array-size 200" args="--no-assertion-reach-checks" bounds="prefix [A:33][B:1]; resize A (33 bytes) to 16, to 17; stored bytes, partial-read window, compared byte positions symbolic; free index = contract model" desc="shrinking: freed tail of 17 / 16 bytes becomes a free record of 1 byte / an empty free record; kept prefix intact: values read back, dead indexes unreadable, file tiled by records and free regions, no out-of-file write; then optimize_storage: no unused space, values intact" kernel="Storage::resize_value,Storage::shrink_value,Storage::move_to_end,Storage::update_record,Storage::write_record,Storage::free_a_region,Storage::optimize_storage,Storage::shrink_index,Storage::truncate,Storage::value_as_bytes,Storage::value_as_bytes_at_size,Storage::value_size,StorageRecords::new_record,StorageRecords::remove_index,StorageRecords::records,StorageRecords::record,StorageRecords::set_pos,StorageRecords::set_size"
+#[kani::proof]
+#[kani::stub(std::fmt::format, crate::verif_support::fmt_stub)]
+#[kani::stub(crate::DbError::new, crate::verif_support::dberror_new_stub)]
+#[kani::stub(crate::storage::storage_records::StorageRecords::take_free, crate::storage::storage_records::verif_h::c04_take_free_model)]
+#[kani::stub(crate::storage::storage_records::StorageRecords::take_free_after, crate::storage::storage_records::verif_h::c04_take_free_after_model)]
+#[kani::stub(crate::storage::storage_records::StorageRecords::mark_free_compact, crate::storage::storage_records::verif_h::c04_mark_free_compact_model)]
+#[kani::stub(crate::storage::storage_records::StorageRecords::mark_free, crate::storage::storage_records::verif_h::c04_mark_free_model)]
+#[kani::stub(crate::storage::storage_records::StorageRecords::clear_free, crate::storage::storage_records::verif_h::c04_clear_free_model)]
+#[kani::stub(crate::storage::storage_records::StorageRecords::free_size, crate::storage::storage_records::verif_h::c04_free_size_model)]
+#[kani::stub(alloc::slice::stable_sort, c04_stable_sort_stub)]
+#[kani::unwind(50)]
+fn c04_hist_shrink_a() {
+    let f1 = c04_scenario(4, C04_RESIZE, 1, 16, 0, 0);
+    let f2 = c04_scenario(4, C04_RESIZE, 1, 17, 0, 0);
+    kani::cover!(f1.same_place() && f1.fc1 == 1 && f1.fs1 == 1, "tail of 17 bytes freed in place");
+    kani::cover!(f2.same_place() && f2.fc1 == 1 && f2.fs1 == 0, "tail of 16 bytes becomes an empty free record");
+    kani::cover!(true, "end of harness reachable");
+}
+
+//@ id=C04 tier=quick timeout=1200 cbmc="--max-field-sensitivity-array-size 200" args="--no-assertion-reach-checks" bounds="prefix [A:33][B:1] / [A:8][free 33][C:8][D:1]; resize A (33 bytes) to 18; resize D (1 byte, at end) to 0; stored bytes, partial-read window, compared byte positions symbolic; free index = contract model" desc="shrinking: a tail of 15 bytes cannot hold a header so the value moves to the end; at the end of the file the file is truncated; kept prefix intact: values read back, dead indexes unreadable, file tiled by records and free regions, no out-of-file write; then optimize_storage: no unused space, values intact" kernel="Storage::resize_value,Storage::shrink_value,Storage::move_to_end,Storage::update_record,Storage::write_record,Storage::free_a_region,Storage::optimize_storage,Storage::shrink_index,Storage::truncate,Storage::value_as_bytes,Storage::value_as_bytes_at_size,Storage::value_size,StorageRecords::new_record,StorageRecords::remove_index,StorageRecords::records,StorageRecords::record,StorageRecords::set_pos,StorageRecords::set_size"
+#[kani::proof]
+#[kani::stub(std::fmt::format, crate::verif_support::fmt_stub)]
+#[kani::stub(crate::DbError::new, crate::verif_support::dberror_new_stub)]
+#[kani::stub(crate::storage::storage_records::StorageRecords::take_free, crate::storage::storage_records::verif_h::c04_take_free_model)]
+#[kani::stub(crate::storage::storage_records::StorageRecords::take_free_after, crate::storage::storage_records::verif_h::c04_take_free_after_model)]
+#[kani::stub(crate::storage::storage_records::StorageRecords::mark_free_compact, crate::storage::storage_records::verif_h::c04_mark_free_compact_model)]
+#[kani::stub(crate::storage::storage_records::StorageRecords::mark_free, crate::storage::storage_records::verif_h::c04_mark_free_model)]
+#[kani::stub(crate::storage::storage_records::StorageRecords::clear_free, crate::storage::storage_records::verif_h::c04_clear_free_model)]
+#[kani::stub(crate::storage::storage_records::StorageRecords::free_size, crate::storage::storage_records::verif_h::c04_free_size_model)]
+#[kani::stub(alloc::slice::stable_sort, c04_stable_sort_stub)]
+#[kani::unwind(50)]
+fn c04_hist_shrink_b() {
+    let f1 = c04_scenario(4, C04_RESIZE, 1, 18, 0, 0);
+    let f2 = c04_scenario(1, C04_RESIZE, 4, 0, 0, 0);
+    kani::cover!(f1.moved_to_end() && f1.fc1 == 1 && f1.fs1 == 33, "tail of 15 bytes: moved to the end");
+    kani::cover!(f2.pos0 == f2.pos1 && f2.len1 + 1 == f2.len0, "shrunk at the end: file truncated");
+    kani::cover!(true, "end of harness reachable");
+}
+
+//@ id=C04 tier=quick timeout=1200 cbmc="--max-field-sensitivity-array-size 200" args="--no-assertion-reach-checks" bounds="prefix [A:0][free 16][C:8][free 17][E:1]; remove C, remove A; stored bytes, partial-read window, compared byte positions symbolic; free index = contract model" desc="remove: the index becomes unreadable, the others stay intact; the freed place merges with both free neighbours / with the following free region: values read back, dead indexes unreadable, file tiled by records and free regions, no out-of-file write; then optimize_storage: no unused space, values intact" kernel="Storage::remove,Storage::is_at_end,Storage::write_record,Storage::free_a_region,Storage::optimize_storage,Storage::shrink_index,Storage::truncate,Storage::value_as_bytes,Storage::value_as_bytes_at_size,Storage::value_size,StorageRecords::new_record,StorageRecords::remove_index,StorageRecords::records,StorageRecords::record,StorageRecords::set_pos,StorageRecords::set_size"
+#[kani::proof]
+#[kani::stub(std::fmt::format, crate::verif_support::fmt_stub)]
+#[kani::stub(crate::DbError::new, crate::verif_support::dberror_new_stub)]
+#[kani::stub(crate::storage::storage_records::StorageRecords::take_free, crate::storage::storage_records::verif_h::c04_take_free_model)]
+#[kani::stub(crate::storage::storage_records::StorageRecords::take_free_after, crate::storage::storage_records::verif_h::c04_take_free_after_model)]
+#[kani::stub(crate::storage::storage_records::StorageRecords::mark_free_compact, crate::storage::storage_records::verif_h::c04_mark_free_compact_model)]
+#[kani::stub(crate::storage::storage_records::StorageRecords::mark_free, crate::storage::storage_records::verif_h::c04_mark_free_model)]
+#[kani::stub(crate::storage::storage_records::StorageRecords::clear_free, crate::storage::storage_records::verif_h::c04_clear_free_model)]
+#[kani::stub(crate::storage::storage_records::StorageRecords::free_size, crate::storage::storage_records::verif_h::c04_free_size_model)]
+#[kani::stub(alloc::slice::stable_sort, c04_stable_sort_stub)]
+#[kani::unwind(50)]
+fn c04_hist_remove_a() {
+    let f1 = c04_scenario(2, C04_REMOVE, 3, 0, 0, 0);
+    let f2 = c04_scenario(2, C04_REMOVE, 1, 0, 0, 0);
+    kani::cover!(f1.ok && f1.fc1 == 1 && f1.fs1 == 16 + 16 + 8 + 16 + 17, "merged with both neighbours");
+    kani::cover!(f2.ok && f2.fc1 == 2 && f2.len1 == f2.len0, "merged with the next free region");
+    kani::cover!(true, "end of harness reachable");
+}
+
+//@ id=C04 tier=quick timeout=1200 cbmc="--max-field-sensitivity-array-size 200" args="--no-assertion-reach-checks" bounds="prefix [A:0][free 16][C:8][free 17][E:1] / [A:8][free 33][C:8][D:1]; remove E (last value of the first), remove C (of the second); stored bytes, partial-read window, compared byte positions symbolic; free index = contract model" desc="remove: at the end of the file the file is truncated (a free region may then end the file); in the middle the freed place merges with the free region before it: values read back, dead indexes unreadable, file tiled by records and free regions, no out-of-file write; then optimize_storage: no unused space, values intact" kernel="Storage::remove,Storage::is_at_end,Storage::write_record,Storage::free_a_region,Storage::optimize_storage,Storage::shrink_index,Storage::truncate,Storage::value_as_bytes,Storage::value_as_bytes_at_size,Storage::value_size,StorageRecords::new_record,StorageRecords::remove_index,StorageRecords::records,StorageRecords::record,StorageRecords::set_pos,StorageRecords::set_size"
+#[kani::proof]
+#[kani::stub(std::fmt::format, crate::verif_support::fmt_stub)]
+#[kani::stub(crate::DbError::new, crate::verif_support::dberror_new_stub)]
+#[kani::stub(crate::storage::storage_records::StorageRecords::take_free, crate::storage::storage_records::verif_h::c04_take_free_model)]
+#[kani::stub(crate::storage::storage_records::StorageRecords::take_free_after, crate::storage::storage_records::verif_h::c04_take_free_after_model)]
+#[kani::stub(crate::storage::storage_records::StorageRecords::mark_free_compact, crate::storage::storage_records::verif_h::c04_mark_free_compact_model)]
+#[kani::stub(crate::storage::storage_records::StorageRecords::mark_free, crate::storage::storage_records::verif_h::c04_mark_free_model)]
+#[kani::stub(crate::storage::storage_records::StorageRecords::clear_free, crate::storage::storage_records::verif_h::c04_clear_free_model)]
+#[kani::stub(crate::storage::storage_records::StorageRecords::free_size, crate::storage::storage_records::verif_h::c04_free_size_model)]
+#[kani::stub(alloc::slice::stable_sort, c04_stable_sort_stub)]
+#[kani::unwind(50)]
+fn c04_hist_remove_b() {
+    let f1 = c04_scenario(2, C04_REMOVE, 5, 0, 0, 0);
+    let f2 = c04_scenario(1, C04_REMOVE, 3, 0, 0, 0);
+    kani::cover!(f1.ok && f1.len1 + 17 == f1.len0 && f1.fc1 == 2, "removed at the end: truncated");
+    kani::cover!(f2.ok && f2.fc1 == 1 && f2.fs1 == 33 + 16 + 8, "merged with the previous free region");
+    kani::cover!(true, "end of harness reachable");
+}
+
+//@ id=C04 tier=quick timeout=1200 cbmc="--max-field-sensitivity-array-size 200" args="--no-assertion-reach-checks" bounds="prefix [A:8][free 33][C:8][D:1]; replace A (8 bytes) by 8 bytes, by 0 bytes; stored bytes, partial-read window, compared byte positions symbolic; free index = contract model" desc="replace_with_bytes with the same size (in place) and with an empty value (shrink by 8 relocates, vacated place merges with the free region): value equals the new bytes: values read back, dead indexes unreadable, file tiled by records and free regions, no out-of-file write; then optimize_storage: no unused space, values intact" kernel="Storage::replace_with_bytes,Storage::insert_bytes_at,Storage::ensure_size,Storage::resize_value,Storage::enlarge_value,Storage::enlarge_in_place,Storage::shrink_value,Storage::move_to_end,Storage::write_record,Storage::free_a_region,Storage::optimize_storage,Storage::shrink_index,Storage::truncate,Storage::value_as_bytes,Storage::value_as_bytes_at_size,Storage::value_size,StorageRecords::new_record,StorageRecords::remove_index,StorageRecords::records,StorageRecords::record,StorageRecords::set_pos,StorageRecords::set_size"
+#[kani::proof]
+#[kani::stub(std::fmt::format, crate::verif_support::fmt_stub)]
+#[kani::stub(crate::DbError::new, crate::verif_support::dberror_new_stub)]
+#[kani::stub(crate::storage::storage_records::StorageRecords::take_free, crate::storage::storage_records::verif_h::c04_take_free_model)]
+#[kani::stub(crate::storage::storage_records::StorageRecords::take_free_after, crate::storage::storage_records::verif_h::c04_take_free_after_model)]
+#[kani::stub(crate::storage::storage_records::StorageRecords::mark_free_compact, crate::storage::storage_records::verif_h::c04_mark_free_compact_model)]
+#[kani::stub(crate::storage::storage_records::StorageRecords::mark_free, crate::storage::storage_records::verif_h::c04_mark_free_model)]
+#[kani::stub(crate::storage::storage_records::StorageRecords::clear_free, crate::storage::storage_records::verif_h::c04_clear_free_model)]
+#[kani::stub(crate::storage::storage_records::StorageRecords::free_size, crate::storage::storage_records::verif_h::c04_free_size_model)]
+#[kani::stub(alloc::slice::stable_sort, c04_stable_sort_stub)]
+#[kani::unwind(50)]
+fn c04_hist_replace_a() {
+    let f1 = c04_scenario(1, C04_REPLACE, 1, 8, 0, 0);
+    let f2 = c04_scenario(1, C04_REPLACE, 1, 0, 0, 0);
+    kani::cover!(f1.same_place() && f1.fs1 == f1.fs0, "same size: in place");
+    kani::cover!(f2.moved_to_end() && f2.fc1 == 1, "shrink by 8: relocated, old place merged with the free region");
+    kani::cover!(true, "end of harness reachable");
+}
+
+//@ id=C04 tier=quick timeout=1200 cbmc="--max-field-sensitivity-array-size 200" args="--no-assertion-reach-checks" bounds="prefix [A:8][free 33][C:8][D:1]; replace A (8 bytes) by 33 bytes; stored bytes, partial-read window, compared byte positions symbolic; free index = contract model" desc="replace_with_bytes with a larger value (grows into the following free region): value equals the new bytes: values read back, dead indexes unreadable, file tiled by records and free regions, no out-of-file write; then optimize_storage: no unused space, values intact" kernel="Storage::replace_with_bytes,Storage::insert_bytes_at,Storage::ensure_size,Storage::resize_value,Storage::enlarge_value,Storage::enlarge_in_place,Storage::shrink_value,Storage::move_to_end,Storage::write_record,Storage::free_a_region,Storage::optimize_storage,Storage::shrink_index,Storage::truncate,Storage::value_as_bytes,Storage::value_as_bytes_at_size,Storage::value_size,StorageRecords::new_record,StorageRecords::remove_index,StorageRecords::records,StorageRecords::record,StorageRecords::set_pos,StorageRecords::set_size"
+#[kani::proof]
+#[kani::stub(std::fmt::format, crate::verif_support::fmt_stub)]
+#[kani::stub(crate::DbError::new, crate::verif_support::dberror_new_stub)]
+#[kani::stub(crate::storage::storage_records::StorageRecords::take_free, crate::storage::storage_records::verif_h::c04_take_free_model)]
+#[kani::stub(crate::storage::storage_records::StorageRecords::take_free_after, crate::storage::storage_records::verif_h::c04_take_free_after_model)]
+#[kani::stub(crate::storage::storage_records::StorageRecords::mark_free_compact, crate::storage::storage_records::verif_h::c04_mark_free_compact_model)]
+#[kani::stub(crate::storage::storage_records::StorageRecords::mark_free, crate::storage::storage_records::verif_h::c04_mark_free_model)]
+#[kani::stub(crate::storage::storage_records::StorageRecords::clear_free, crate::storage::storage_records::verif_h::c04_clear_free_model)]
+#[kani::stub(crate::storage::storage_records::StorageRecords::free_size, crate::storage::storage_records::verif_h::c04_free_size_model)]
+#[kani::stub(alloc::slice::stable_sort, c04_stable_sort_stub)]
+#[kani::unwind(50)]
+fn c04_hist_replace_b() {
+    let f1 = c04_scenario(1, C04_REPLACE, 1, 33, 0, 0);
+    kani::cover!(f1.same_place() && f1.fs1 == 8, "growth into the following free region");
+    kani::cover!(true, "end of harness reachable");
+}
+
+//@ id=C04 tier=quick timeout=1200 cbmc="--max-field-sensitivity-array-size 200" args="--no-assertion-reach-checks" bounds="prefix [A:8][free 33][C:8][D:1]; insert_bytes_at on A (offset,len) = (0,8), (4,8); stored bytes, partial-read window, compared byte positions symbolic; free index = contract model" desc="insert_bytes_at inside the value and extending it by 4 bytes into the following free region: exactly the addressed bytes change: values read back, dead indexes unreadable, file tiled by records and free regions, no out-of-file write; then optimize_storage: no unused space, values intact" kernel="Storage::insert_bytes_at,Storage::ensure_size,Storage::enlarge_value,Storage::enlarge_in_place,Storage::enlarge_at_end,Storage::write_record,Storage::free_a_region,Storage::optimize_storage,Storage::shrink_index,Storage::truncate,Storage::value_as_bytes,Storage::value_as_bytes_at_size,Storage::value_size,StorageRecords::new_record,StorageRecords::remove_index,StorageRecords::records,StorageRecords::record,StorageRecords::set_pos,StorageRecords::set_size"
+#[kani::proof]
+#[kani::stub(std::fmt::format, crate::verif_support::fmt_stub)]
+#[kani::stub(crate::DbError::new, crate::verif_support::dberror_new_stub)]
+#[kani::stub(crate::storage::storage_records::StorageRecords::take_free, crate::storage::storage_records::verif_h::c04_take_free_model)]
+#[kani::stub(crate::storage::storage_records::StorageRecords::take_free_after, crate::storage::storage_records::verif_h::c04_take_free_after_model)]
+#[kani::stub(crate::storage::storage_records::StorageRecords::mark_free_compact, crate::storage::storage_records::verif_h::c04_mark_free_compact_model)]
+#[kani::stub(crate::storage::storage_records::StorageRecords::mark_free, crate::storage::storage_records::verif_h::c04_mark_free_model)]
+#[kani::stub(crate::storage::storage_records::StorageRecords::clear_free, crate::storage::storage_records::verif_h::c04_clear_free_model)]
+#[kani::stub(crate::storage::storage_records::StorageRecords::free_size, crate::storage::storage_records::verif_h::c04_free_size_model)]
+#[kani::stub(alloc::slice::stable_sort, c04_stable_sort_stub)]
+#[kani::unwind(50)]
+fn c04_hist_write_at_a() {
+    let f1 = c04_scenario(1, C04_WRITE_AT, 1, 0, 8, 0);
+    let f2 = c04_scenario(1, C04_WRITE_AT, 1, 4, 8, 0);
+    kani::cover!(f1.same_place() && f1.fs1 == f1.fs0, "overwrite inside the value");
+    kani::cover!(f2.same_place() && f2.fs1 + 4 == f2.fs0, "extends the value by 4 into the free region");
+    kani::cover!(true, "end of harness reachable");
+}
+
+//@ id=C04 tier=quick timeout=1200 cbmc="--max-field-sensitivity-array-size 200" args="--no-assertion-reach-checks" bounds="prefix [A:8][free 33][C:8][D:1]; insert_bytes_at on A (17,1), on D (1,16); stored bytes, partial-read window, compared byte positions symbolic; free index = contract model" desc="insert_bytes_at beyond the end of the value (the gap reads as zero although the space held other data before) and on the last value of the file: values read back, dead indexes unreadable, file tiled by records and free regions, no out-of-file write; then optimize_storage: no unused space, values intact" kernel="Storage::insert_bytes_at,Storage::ensure_size,Storage::enlarge_value,Storage::enlarge_in_place,Storage::enlarge_at_end,Storage::write_record,Storage::free_a_region,Storage::optimize_storage,Storage::shrink_index,Storage::truncate,Storage::value_as_bytes,Storage::value_as_bytes_at_size,Storage::value_size,StorageRecords::new_record,StorageRecords::remove_index,StorageRecords::records,StorageRecords::record,StorageRecords::set_pos,StorageRecords::set_size"
+#[kani::proof]
+#[kani::stub(std::fmt::format, crate::verif_support::fmt_stub)]
+#[kani::stub(crate::DbError::new, crate::verif_support::dberror_new_stub)]
+#[kani::stub(crate::storage::storage_records::StorageRecords::take_free, crate::storage::storage_records::verif_h::c04_take_free_model)]
+#[kani::stub(crate::storage::storage_records::StorageRecords::take_free_after, crate::storage::storage_records::verif_h::c04_take_free_after_model)]
+#[kani::stub(crate::storage::storage_records::StorageRecords::mark_free_compact, crate::storage::storage_records::verif_h::c04_mark_free_compact_model)]
+#[kani::stub(crate::storage::storage_records::StorageRecords::mark_free, crate::storage::storage_records::verif_h::c04_mark_free_model)]
+#[kani::stub(crate::storage::storage_records::StorageRecords::clear_free, crate::storage::storage_records::verif_h::c04_clear_free_model)]
+#[kani::stub(crate::storage::storage_records::StorageRecords::free_size, crate::storage::storage_records::verif_h::c04_free_size_model)]
+#[kani::stub(alloc::slice::stable_sort, c04_stable_sort_stub)]
+#[kani::unwind(50)]
+fn c04_hist_write_at_b() {
+    let f1 = c04_scenario(1, C04_WRITE_AT, 1, 17, 1, 0);
+    let f2 = c04_scenario(1, C04_WRITE_AT, 4, 1, 16, 0);
+    kani::cover!(f1.same_place() && f1.fs1 + 10 == f1.fs0, "offset beyond the end: gap + 1 byte");
+    kani::cover!(f2.pos0 == f2.pos1 && f2.len1 == f2.len0 + 16, "last value of the file grows");
+    kani::cover!(true, "end of harness reachable");
+}
+
+//@ id=C04 tier=quick timeout=1200 cbmc="--max-field-sensitivity-array-size 200" args="--no-assertion-reach-checks" bounds="prefix [A:16][B:8]; move_at on A (from,to,len) = (8,0,8), (4,0,8); stored bytes, partial-read window, compared byte positions symbolic; free index = contract model" desc="move_at towards the start, disjoint and overlapping: destination gets the source bytes, source bytes not covered by the destination read as zero: values read back, dead indexes unreadable, file tiled by records and free regions, no out-of-file write; then optimize_storage: no unused space, values intact" kernel="Storage::move_at,Storage::erase_bytes,Storage::insert_bytes_at,Storage::validate_read_size,Storage::ensure_size,Storage::enlarge_value,Storage::move_to_end,Storage::write_record,Storage::free_a_region,Storage::optimize_storage,Storage::shrink_index,Storage::truncate,Storage::value_as_bytes,Storage::value_as_bytes_at_size,Storage::value_size,StorageRecords::new_record,StorageRecords::remove_index,StorageRecords::records,StorageRecords::record,StorageRecords::set_pos,StorageRecords::set_size"
+#[kani::proof]
+#[kani::stub(std::fmt::format, crate::verif_support::fmt_stub)]
+#[kani::stub(crate::DbError::new, crate::verif_support::dberror_new_stub)]
+#[kani::stub(crate::storage::storage_records::StorageRecords::take_free, crate::storage::storage_records::verif_h::c04_take_free_model)]
+#[kani::stub(crate::storage::storage_records::StorageRecords::take_free_after, crate::storage::storage_records::verif_h::c04_take_free_after_model)]
+#[kani::stub(crate::storage::storage_records::StorageRecords::mark_free_compact, crate::storage::storage_records::verif_h::c04_mark_free_compact_model)]
+#[kani::stub(crate::storage::storage_records::StorageRecords::mark_free, crate::storage::storage_records::verif_h::c04_mark_free_model)]
+#[kani::stub(crate::storage::storage_records::StorageRecords::clear_free, crate::storage::storage_records::verif_h::c04_clear_free_model)]
+#[kani::stub(crate::storage::storage_records::StorageRecords::free_size, crate::storage::storage_records::verif_h::c04_free_size_model)]
+#[kani::stub(alloc::slice::stable_sort, c04_stable_sort_stub)]
+#[kani::unwind(50)]
+fn c04_hist_move_left_a() {
+    let f1 = c04_scenario(3, C04_MOVE, 1, 8, 0, 8);
+    let f2 = c04_scenario(3, C04_MOVE, 1, 4, 0, 8);
+    kani::cover!(f1.same_place(), "disjoint move to the left");
+    kani::cover!(f2.same_place(), "overlapping move to the left");
+    kani::cover!(true, "end of harness reachable");
+}
+
+//@ id=C04 tier=quick timeout=1200 cbmc="--max-field-sensitivity-array-size 200" args="--no-assertion-reach-checks" bounds="prefix [A:16][B:8]; move_at on A (from,to,len) = (8,8,8), (0,0,0); stored bytes, partial-read window, compared byte positions symbolic; free index = contract model" desc="move_at onto itself and empty move change nothing: values read back, dead indexes unreadable, file tiled by records and free regions, no out-of-file write; then optimize_storage: no unused space, values intact" kernel="Storage::move_at,Storage::erase_bytes,Storage::insert_bytes_at,Storage::validate_read_size,Storage::ensure_size,Storage::enlarge_value,Storage::move_to_end,Storage::write_record,Storage::free_a_region,Storage::optimize_storage,Storage::shrink_index,Storage::truncate,Storage::value_as_bytes,Storage::value_as_bytes_at_size,Storage::value_size,StorageRecords::new_record,StorageRecords::remove_index,StorageRecords::records,StorageRecords::record,StorageRecords::set_pos,StorageRecords::set_size"
+#[kani::proof]
+#[kani::stub(std::fmt::format, crate::verif_support::fmt_stub)]
+#[kani::stub(crate::DbError::new, crate::verif_support::dberror_new_stub)]
+#[kani::stub(crate::storage::storage_records::StorageRecords::take_free, crate::storage::storage_records::verif_h::c04_take_free_model)]
+#[kani::stub(crate::storage::storage_records::StorageRecords::take_free_after, crate::storage::storage_records::verif_h::c04_take_free_after_model)]
+#[kani::stub(crate::storage::storage_records::StorageRecords::mark_free_compact, crate::storage::storage_records::verif_h::c04_mark_free_compact_model)]
+#[kani::stub(crate::storage::storage_records::StorageRecords::mark_free, crate::storage::storage_records::verif_h::c04_mark_free_model)]
+#[kani::stub(crate::storage::storage_records::StorageRecords::clear_free, crate::storage::storage_records::verif_h::c04_clear_free_model)]
+#[kani::stub(crate::storage::storage_records::StorageRecords::free_size, crate::storage::storage_records::verif_h::c04_free_size_model)]
+#[kani::stub(alloc::slice::stable_sort, c04_stable_sort_stub)]
+#[kani::unwind(50)]
+fn c04_hist_move_left_b() {
+    let f1 = c04_scenario(3, C04_MOVE, 1, 8, 8, 8);
+    let f2 = c04_scenario(3, C04_MOVE, 1, 0, 0, 0);
+    kani::cover!(f1.same_place(), "source == destination");
+    kani::cover!(f2.same_place(), "empty move");
+    kani::cover!(true, "end of harness reachable");
+}
+
+//@ id=C04 tier=quick timeout=1200 cbmc="--max-field-sensitivity-array-size 200" args="--no-assertion-reach-checks" bounds="prefix [A:16][B:8]; move_at on A (from,to,len) = (0,8,8), (0,4,8); stored bytes, partial-read window, compared byte positions symbolic; free index = contract model" desc="move_at towards the end, disjoint and overlapping: destination gets the source bytes, source bytes not covered by the destination read as zero: values read back, dead indexes unreadable, file tiled by records and free regions, no out-of-file write; then optimize_storage: no unused space, values intact" kernel="Storage::move_at,Storage::erase_bytes,Storage::insert_bytes_at,Storage::validate_read_size,Storage::ensure_size,Storage::enlarge_value,Storage::move_to_end,Storage::write_record,Storage::free_a_region,Storage::optimize_storage,Storage::shrink_index,Storage::truncate,Storage::value_as_bytes,Storage::value_as_bytes_at_size,Storage::value_size,StorageRecords::new_record,StorageRecords::remove_index,StorageRecords::records,StorageRecords::record,StorageRecords::set_pos,StorageRecords::set_size"
+#[kani::proof]
+#[kani::stub(std::fmt::format, crate::verif_support::fmt_stub)]
+#[kani::stub(crate::DbError::new, crate::verif_support::dberror_new_stub)]
+#[kani::stub(crate::storage::storage_records::StorageRecords::take_free, crate::storage::storage_records::verif_h::c04_take_free_model)]
+#[kani::stub(crate::storage::storage_records::StorageRecords::take_free_after, crate::storage::storage_records::verif_h::c04_take_free_after_model)]
+#[kani::stub(crate::storage::storage_records::StorageRecords::mark_free_compact, crate::storage::storage_records::verif_h::c04_mark_free_compact_model)]
+#[kani::stub(crate::storage::storage_records::StorageRecords::mark_free, crate::storage::storage_records::verif_h::c04_mark_free_model)]
+#[kani::stub(crate::storage::storage_records::StorageRecords::clear_free, crate::storage::storage_records::verif_h::c04_clear_free_model)]
+#[kani::stub(crate::storage::storage_records::StorageRecords::free_size, crate::storage::storage_records::verif_h::c04_free_size_model)]
+#[kani::stub(alloc::slice::stable_sort, c04_stable_sort_stub)]
+#[kani::unwind(50)]
+fn c04_hist_move_right_a() {
+    let f1 = c04_scenario(3, C04_MOVE, 1, 0, 8, 8);
+    let f2 = c04_scenario(3, C04_MOVE, 1, 0, 4, 8);
+    kani::cover!(f1.same_place(), "disjoint move to the right");
+    kani::cover!(f2.same_place(), "overlapping move to the right");
+    kani::cover!(true, "end of harness reachable");
+}
+
+//@ id=C04 tier=quick timeout=1200 cbmc="--max-field-sensitivity-array-size 200" args="--no-assertion-reach-checks" bounds="prefix [A:16][B:8]; move_at on A (from,to,len) = (8,16,8); stored bytes, partial-read window, compared byte positions symbolic; free index = contract model" desc="move_at beyond the end of the value: the value grows (gap zero) and relocates: destination gets the source bytes, source bytes not covered by the destination read as zero: values read back, dead indexes unreadable, file tiled by records and free regions, no out-of-file write; then optimize_storage: no unused space, values intact" kernel="Storage::move_at,Storage::erase_bytes,Storage::insert_bytes_at,Storage::validate_read_size,Storage::ensure_size,Storage::enlarge_value,Storage::move_to_end,Storage::write_record,Storage::free_a_region,Storage::optimize_storage,Storage::shrink_index,Storage::truncate,Storage::value_as_bytes,Storage::value_as_bytes_at_size,Storage::value_size,StorageRecords::new_record,StorageRecords::remove_index,StorageRecords::records,StorageRecords::record,StorageRecords::set_pos,StorageRecords::set_size"
+#[kani::proof]
+#[kani::stub(std::fmt::format, crate::verif_support::fmt_stub)]
+#[kani::stub(crate::DbError::new, crate::verif_support::dberror_new_stub)]
+#[kani::stub(crate::storage::storage_records::StorageRecords::take_free, crate::storage::storage_records::verif_h::c04_take_free_model)]
+#[kani::stub(crate::storage::storage_records::StorageRecords::take_free_after, crate::storage::storage_records::verif_h::c04_take_free_after_model)]
+#[kani::stub(crate::storage::storage_records::StorageRecords::mark_free_compact, crate::storage::storage_records::verif_h::c04_mark_free_compact_model)]
+#[kani::stub(crate::storage::storage_records::StorageRecords::mark_free, crate::storage::storage_records::verif_h::c04_mark_free_model)]
+#[kani::stub(crate::storage::storage_records::StorageRecords::clear_free, crate::storage::storage_records::verif_h::c04_clear_free_model)]
+#[kani::stub(crate::storage::storage_records::StorageRecords::free_size, crate::storage::storage_records::verif_h::c04_free_size_model)]
+#[kani::stub(alloc::slice::stable_sort, c04_stable_sort_stub)]
+#[kani::unwind(50)]
+fn c04_hist_move_right_b() {
+    let f1 = c04_scenario(3, C04_MOVE, 1, 8, 16, 8);
+    kani::cover!(f1.moved_to_end() && f1.fc1 == 1, "destination beyond the end: value grows and relocates");
+    kani::cover!(true, "end of harness reachable");
+}
+
+//@ id=C04 tier=quick timeout=2000 cbmc="--max-field-sensitivity-array-size 200" args="--no-assertion-reach-checks" bounds="[A:8][B:16][C:8][D:17][E:1], then remove B, remove D, insert 1, insert 1, remove A, insert 8, insert 0 with a full check after each step; stored bytes, partial-read window, compared byte positions symbolic; free index = contract model" desc="indexes of removed values are handed out again one by one and never while live (free-index list threaded through slot 0), new values land in free regions or at the end, every step keeps all values readable and the file tiled, optimize leaves no unused space" kernel="Storage::insert_bytes,Storage::remove,Storage::write_record,Storage::free_a_region,Storage::optimize_storage,Storage::shrink_index,Storage::truncate,Storage::value_as_bytes,Storage::value_as_bytes_at_size,Storage::value_size,StorageRecords::new_record,StorageRecords::remove_index,StorageRecords::records,StorageRecords::record,StorageRecords::set_pos,StorageRecords::set_size"
+#[kani::proof]
+#[kani::stub(std::fmt::format, crate::verif_support::fmt_stub)]
+#[kani::stub(crate::DbError::new, crate::verif_support::dberror_new_stub)]
+#[kani::stub(crate::storage::storage_records::StorageRecords::take_free, crate::storage::storage_records::verif_h::c04_take_free_model)]
+#[kani::stub(crate::storage::storage_records::StorageRecords::take_free_after, crate::storage::storage_records::verif_h::c04_take_free_after_model)]
+#[kani::stub(crate::storage::storage_records::StorageRecords::mark_free_compact, crate::storage::storage_records::verif_h::c04_mark_free_compact_model)]
+#[kani::stub(crate::storage::storage_records::StorageRecords::mark_free, crate::storage::storage_records::verif_h::c04_mark_free_model)]
+#[kani::stub(crate::storage::storage_records::StorageRecords::clear_free, crate::storage::storage_records::verif_h::c04_clear_free_model)]
+#[kani::stub(crate::storage::storage_records::StorageRecords::free_size, crate::storage::storage_records::verif_h::c04_free_size_model)]
+#[kani::stub(alloc::slice::stable_sort, c04_stable_sort_stub)]
+#[kani::unwind(50)]
+fn c04_hist_index_reuse() {
+    let (mut s, mut m) = c04_prefix(5);
+    c04_check_all(&s, &m);
+    c04_step(&mut s, &mut m, C04_REMOVE, 2, 0, 0, 0);
+    c04_step(&mut s, &mut m, C04_REMOVE, 4, 0, 0, 0);
+    let f1 = c04_step(&mut s, &mut m, C04_INSERT, 1, 1, 0, 0);
+    let f2 = c04_step(&mut s, &mut m, C04_INSERT, 1, 1, 0, 0);
+    let f3 = c04_step(&mut s, &mut m, C04_REMOVE, 1, 0, 0, 0);
+    let f4 = c04_step(&mut s, &mut m, C04_INSERT, 1, 8, 0, 0);
+    let f5 = c04_step(&mut s, &mut m, C04_INSERT, 1, 0, 0, 0);
+    c04_finale(&mut s, &mut m);
+    kani::cover!(f1.t == 4 && f2.t == 2, "removed indexes reused, last removed first");
+    kani::cover!(f4.t == 1, "index removed later is reused");
+    kani::cover!(f5.t == 6, "table grows when no removed index is left");
+    kani::cover!(true, "end of harness reachable");
+    std::mem::forget(s);
+}
+
+//@ id=C04 tier=quick timeout=1200 cbmc="--max-field-sensitivity-array-size 200" args="--no-assertion-reach-checks" bounds="empty storage: insert 0 bytes, insert_bytes_at(1,1), resize to 0, remove, insert 1 byte, insert_bytes_at beyond end on it, with a full check after each step; stored bytes, partial-read window, compared byte positions symbolic; free index = contract model" desc="history from an empty storage through an empty value, growth from empty, shrink to empty, removal of the only value (file back to the bare version record) and reuse: every step keeps all values readable and the file tiled, optimize leaves no unused space" kernel="Storage::insert_bytes,Storage::insert_bytes_at,Storage::resize_value,Storage::remove,Storage::enlarge_at_end,Storage::shrink_value,Storage::write_record,Storage::free_a_region,Storage::optimize_storage,Storage::shrink_index,Storage::truncate,Storage::value_as_bytes,Storage::value_as_bytes_at_size,Storage::value_size,StorageRecords::new_record,StorageRecords::remove_index,StorageRecords::records,StorageRecords::record,StorageRecords::set_pos,StorageRecords::set_size"
+#[kani::proof]
+#[kani::stub(std::fmt::format, crate::verif_support::fmt_stub)]
+#[kani::stub(crate::DbError::new, crate::verif_support::dberror_new_stub)]
+#[kani::stub(crate::storage::storage_records::StorageRecords::take_free, crate::storage::storage_records::verif_h::c04_take_free_model)]
+#[kani::stub(crate::storage::storage_records::StorageRecords::take_free_after, crate::storage::storage_records::verif_h::c04_take_free_after_model)]
+#[kani::stub(crate::storage::storage_records::StorageRecords::mark_free_compact, crate::storage::storage_records::verif_h::c04_mark_free_compact_model)]
+#[kani::stub(crate::storage::storage_records::StorageRecords::mark_free, crate::storage::storage_records::verif_h::c04_mark_free_model)]
+#[kani::stub(crate::storage::storage_records::StorageRecords::clear_free, crate::storage::storage_records::verif_h::c04_clear_free_model)]
+#[kani::stub(crate::storage::storage_records::StorageRecords::free_size, crate::storage::storage_records::verif_h::c04_free_size_model)]
+#[kani::stub(alloc::slice::stable_sort, c04_stable_sort_stub)]
+#[kani::unwind(50)]
+fn c04_hist_from_empty() {
+    let (mut s, mut m) = c04_prefix(0);
+    c04_check_all(&s, &m);
+    let f1 = c04_step(&mut s, &mut m, C04_INSERT, 1, 0, 0, 0);
+    let f2 = c04_step(&mut s, &mut m, C04_WRITE_AT, 1, 1, 1, 0);
+    let f3 = c04_step(&mut s, &mut m, C04_RESIZE, 1, 0, 0, 0);
+    let f4 = c04_step(&mut s, &mut m, C04_REMOVE, 1, 0, 0, 0);
+    let f5 = c04_step(&mut s, &mut m, C04_INSERT, 1, 1, 0, 0);
+    let f6 = c04_step(&mut s, &mut m, C04_WRITE_AT, 1, 8, 8, 0);
+    c04_finale(&mut s, &mut m);
+    kani::cover!(f1.t == 1 && f1.len1 == 40, "empty value stored");
+    kani::cover!(f2.len1 == 42, "grown from empty at the end of the file");
+    kani::cover!(f3.len1 == 40, "shrunk to empty");
+    kani::cover!(f4.len1 == 24, "file back to the version record");
+    kani::cover!(f5.t == 1, "index reused");
+    kani::cover!(f6.len1 == 24 + 16 + 16, "gap beyond the end");
+    kani::cover!(true, "end of harness reachable");
+    std::mem::forget(s);
+}
+
+//@ id=C04 tier=quick timeout=1200 cbmc="--max-field-sensitivity-array-size 200" args="--no-assertion-reach-checks" bounds="file image [A:8][free 33][C:8][D:1] (index 2 unused) built directly, symbolic value bytes and symbolic garbage in the free region; stored bytes, partial-read window, compared byte positions symbolic; free index = contract model" desc="Storage::with_data on a copy of the bytes: same values under the same indexes, same free regions, nothing written; the next insert on the reopened storage gets a non-live index (the unused one) and leaves everything readable and tiled" kernel="Storage::with_data,Storage::read_records,Storage::read_record,Storage::extract_version,Storage::validate_or_update_version,StorageRecords::set_record,StorageRecords::rebuild_free_index,Storage::insert_bytes,Storage::write_record,Storage::free_a_region,Storage::optimize_storage,Storage::shrink_index,Storage::truncate,Storage::value_as_bytes,Storage::value_as_bytes_at_size,Storage::value_size,StorageRecords::new_record,StorageRecords::remove_index,StorageRecords::records,StorageRecords::record,StorageRecords::set_pos,StorageRecords::set_size"
+#[kani::proof]
+#[kani::stub(std::fmt::format, crate::verif_support::fmt_stub)]
+#[kani::stub(crate::DbError::new, crate::verif_support::dberror_new_stub)]
+#[kani::stub(crate::storage::storage_records::StorageRecords::take_free, crate::storage::storage_records::verif_h::c04_take_free_model)]
+#[kani::stub(crate::storage::storage_records::StorageRecords::take_free_after, crate::storage::storage_records::verif_h::c04_take_free_after_model)]
+#[kani::stub(crate::storage::storage_records::StorageRecords::mark_free_compact, crate::storage::storage_records::verif_h::c04_mark_free_compact_model)]
+#[kani::stub(crate::storage::storage_records::StorageRecords::mark_free, crate::storage::storage_records::verif_h::c04_mark_free_model)]
+#[kani::stub(crate::storage::storage_records::StorageRecords::clear_free, crate::storage::storage_records::verif_h::c04_clear_free_model)]
+#[kani::stub(crate::storage::storage_records::StorageRecords::free_size, crate::storage::storage_records::verif_h::c04_free_size_model)]
+#[kani::stub(alloc::slice::stable_sort, c04_stable_sort_stub)]
+#[kani::unwind(50)]
+fn c04_reopen_gap() {
+    let (s, m) = c04_prefix(1);
+    c04_check_all(&s, &m);
+    c04_reopen_check(&s, &m);
+    kani::cover!(true, "end of harness reachable");
+    std::mem::forget(s);
+}
+
+//@ id=C04 tier=quick timeout=1500 cbmc="--max-field-sensitivity-array-size 200" args="--no-assertion-reach-checks" bounds="empty storage, insert 8, insert 1, insert 8, remove the middle one, reopen, optimize, reopen; stored bytes, partial-read window, compared byte positions symbolic; free index = contract model" desc="after a real history that leaves a free region and an unused index, and again after optimize_storage, Storage::with_data on a copy of the bytes shows the same values under the same indexes and the same free regions; the next insert on the reopened storage gets a non-live index" kernel="Storage::with_data,Storage::read_records,Storage::read_record,Storage::extract_version,Storage::validate_or_update_version,StorageRecords::set_record,StorageRecords::rebuild_free_index,Storage::insert_bytes,Storage::remove,Storage::write_record,Storage::free_a_region,Storage::optimize_storage,Storage::shrink_index,Storage::truncate,Storage::value_as_bytes,Storage::value_as_bytes_at_size,Storage::value_size,StorageRecords::new_record,StorageRecords::remove_index,StorageRecords::records,StorageRecords::record,StorageRecords::set_pos,StorageRecords::set_size"
+#[kani::proof]
+#[kani::stub(std::fmt::format, crate::verif_support::fmt_stub)]
+#[kani::stub(crate::DbError::new, crate::verif_support::dberror_new_stub)]
+#[kani::stub(crate::storage::storage_records::StorageRecords::take_free, crate::storage::storage_records::verif_h::c04_take_free_model)]
+#[kani::stub(crate::storage::storage_records::StorageRecords::take_free_after, crate::storage::storage_records::verif_h::c04_take_free_after_model)]
+#[kani::stub(crate::storage::storage_records::StorageRecords::mark_free_compact, crate::storage::storage_records::verif_h::c04_mark_free_compact_model)]
+#[kani::stub(crate::storage::storage_records::StorageRecords::mark_free, crate::storage::storage_records::verif_h::c04_mark_free_model)]
+#[kani::stub(crate::storage::storage_records::StorageRecords::clear_free, crate::storage::storage_records::verif_h::c04_clear_free_model)]
+#[kani::stub(crate::storage::storage_records::StorageRecords::free_size, crate::storage::storage_records::verif_h::c04_free_size_model)]
+#[kani::stub(alloc::slice::stable_sort, c04_stable_sort_stub)]
+#[kani::unwind(50)]
+fn c04_reopen_history() {
+    let (mut s, mut m) = c04_prefix(0);
+    c04_put(&mut s, &mut m, 8);
+    c04_put(&mut s, &mut m, 1);
+    c04_put(&mut s, &mut m, 8);
+    c04_del(&mut s, &mut m, 2);
+    c04_check_all(&s, &m);
+    c04_reopen_check(&s, &m);
+    c04_finale(&mut s, &mut m);
+    c04_reopen_check(&s, &m);
+    kani::cover!(true, "end of harness reachable");
+    std::mem::forget(s);
+}
+
+// ===========================================================================
+// C32 -- a failed write must not leave the storage transaction open
+// ===========================================================================
+//
+// Mechanism under test (DESIGN.md C32): every public mutating method of
+// `Storage` brackets its writes with `transaction()` ... `commit(id)`; only the
+// commit that brings the nesting counter back to 0 calls `StorageData::flush`
+// (which is what clears the write-ahead log in `FileStorage`). Oracle: if the
+// operation returns Err because the `fail_at`-th write/resize of the back end
+// failed, the counter is back at its pre-call value (0), and a following
+// successful operation reaches `flush`.
+//
+// State: [A:8][free 33][C:8][D:1] (c04_prefix(1)); operation arguments are
+// concrete (see C04 for why), `fail_at` is symbolic over all calls the
+// operation issues (+ "no failure").
+
+pub(crate) const C32_MAX_CALLS: u32 = 8;
+
+fn c32_arm(s: &mut Storage<ArrStorage>, fail_at: u32) -> u32 {
+    // `fail_at` is enumerated by the caller: a symbolic failure point makes the
+    // position of every later write symbolic, which exhausts 10 GB (measured)
+    s.data.calls = 0;
+    s.data.flushes = 0;
+    s.data.fail_at = fail_at;
+    assert!(s.transactions == 0, "harness: fresh storage has an open transaction");
+    fail_at
+}
+
+/// Oracle after the faulty operation; returns (operation failed, calls issued).
+fn c32_after<T>(s: &mut Storage<ArrStorage>, r: Result<T, DbError>, fail_at: u32) -> (bool, u32) {
+    let failed = r.is_err();
+    std::mem::forget(r);
+    let calls = s.data.calls;
+    assert!(calls <= C32_MAX_CALLS, "harness bound: operation issues more calls than fail_at covers");
+    if failed {
+        assert!(fail_at < calls, "operation failed although no back-end call failed");
+        assert!(
+            s.transactions == 0,
+            "failed operation left its storage transaction open (nesting counter not restored)"
+        );
+    } else {
+        assert!(fail_at >= calls, "back-end failure swallowed: operation reported success");
+        assert!(s.transactions == 0, "successful operation left a transaction open");
+        assert!(s.data.flushes == 1, "successful outermost operation did not flush exactly once");
+    }
+    // later committed work: a following successful operation must reach flush
+    s.data.fail_at = u32::MAX;
+    let before = s.data.flushes;
+    let one = [7u8; 1];
+    let r2 = s.insert_bytes(&one);
+    assert!(r2.is_ok(), "operation after a failed one fails");
+    std::mem::forget(r2);
+    assert!(
+        s.data.flushes == before + 1,
+        "successful operation after a failed one never reaches flush (its commit is not the outermost)"
+    );
+    (failed, calls)
+}
+
+// ===========================================================================
+// C07 (storage part) -- opening / reading a damaged file never crashes
+// ===========================================================================
+//
+// `Storage::with_data` on a damaged file must return Ok or Err; it must not
+// panic, overflow, or size a table by a number read from the file without
+// bound. On a storage that did open, every record of the table must lie inside
+// the file and every read entry point (whole values, sizes, a partial-read
+// window with symbolic offset / size) must return Ok or Err.
+// Oracle = absence of failed checks (panics, arithmetic overflow, out-of-range
+// slicing, unwinding assertions of loops whose trip count is read from the
+// file) + the explicit assertion of `c07_table_inside_file`.
+// `StorageRecords::mark_free` (BTree) is replaced by the contract model, see
+// storage_records_h.rs.
+
+pub(crate) const C07_N: usize = 72;
+pub(crate) const C07_VALID_LEN: usize = 65;
+pub(crate) const C07_CUTS: usize = 16;
+/// truncation points: every structural boundary of the valid image -1 / 0 / +1
+pub(crate) const C07_CUT_POINTS: [usize; C07_CUTS] = [0, 1, 15, 16, 20, 23, 24, 25, 39, 40, 44, 47, 48, 63, 64, 65];
+
+// Measured limits: with a fully symbolic file (length and bytes) `with_data`
+// does not finish (25 min), a symbolic record index makes
+// `records.resize(index + 1)` exhaust the solver memory, and so does a symbolic
+// record size (the walk of `read_records` continues at a symbolic position).
+// The damaged files are therefore generated from one valid image
+//     [0,8,version=1][index 1, size 8, 8 bytes][index 3, size 1, 1 byte]   (65 bytes)
+// with symbolic value bytes, by
+//  (a) truncation at the lengths around every structural boundary,
+//  (b) the size field of the version record replaced by a symbolic u64,
+//  (c) the size field of the last record replaced by boundary values of the
+//      size check (2, 17, 33 accepted too leniently today, 34, 2^63, 2^64-1),
+//  (d) the index field of the last record replaced by 6, 2^40, 2^62, 2^64-1
+//      (and `set_record` alone with the same values, storage_records_h.rs).
+// In (a), (c), (d) the case is a symbolic choice with one concrete run per
+// case, so that a panic in one case does not hide the others.
+
+/// Offsets of the numeric header fields of the valid image.
+pub(crate) const C07_F_VERSION_INDEX: usize = 0;
+pub(crate) const C07_F_VERSION_SIZE: usize = 8;
+pub(crate) const C07_F_VERSION_VALUE: usize = 16;
+pub(crate) const C07_F_REC1_INDEX: usize = 24;
+pub(crate) const C07_F_REC1_SIZE: usize = 32;
+pub(crate) const C07_F_REC2_INDEX: usize = 48;
+pub(crate) const C07_F_REC2_SIZE: usize = 56;
+
+// (element-wise stores instead of copy_from_slice: after a memcpy CBMC no
+// longer constant-propagates the header fields, and `read_records` on header
+// fields that look symbolic ends in a symbolic `records.resize(index + 1)`)
+pub(crate) fn c07_put64(img: &mut [u8; C07_N], at: usize, v: u64) {
+    let b = v.to_le_bytes();
+    let mut k = 0;
+    while k < 8 {
+        img[at + k] = b[k];
+        k += 1;
+    }
+}
+
+pub(crate) fn c07_valid_image() -> [u8; C07_N] {
+    let values: [u8; 9] = kani::any();
+    let mut img = [0u8; C07_N];
+    c07_put64(&mut img, C07_F_VERSION_INDEX, 0);
+    c07_put64(&mut img, C07_F_VERSION_SIZE, 8);
+    c07_put64(&mut img, C07_F_VERSION_VALUE, CURRENT_VERSION);
+    c07_put64(&mut img, C07_F_REC1_INDEX, 1);
+    c07_put64(&mut img, C07_F_REC1_SIZE, 8);
+    let mut k = 0;
+    while k < 8 {
+        img[40 + k] = values[k];
+        k += 1;
+    }
+    c07_put64(&mut img, C07_F_REC2_INDEX, 3);
+    c07_put64(&mut img, C07_F_REC2_SIZE, 1);
+    img[64] = values[8];
+    img
+}
+
+pub(crate) fn c07_arr(img: &[u8; C07_N], n: usize) -> ArrStorage {
+    let mut d = ArrStorage::empty();
+    // 9 x 8 nested so that a small unwind bound covers it
+    let mut c = 0;
+    while c < C07_N / 8 {
+        let mut k = 0;
+        while k < 8 {
+            let i = c * 8 + k;
+            if i < n {
+                d.buf[i] = img[i];
+            }
+            k += 1;
+        }
+        c += 1;
+    }
+    d.len = n;
+    d
+}
+
+/// Opens `data`; if it opens, checks the table against the file and reads
+/// every value of the table (whole value, size, and one symbolic window of the
+/// value with index `probe`). Returns whether it opened.
+pub(crate) fn c07_open_case<D: StorageData>(data: D, probe: u64) -> bool {
+    rec_h::c04_fm().reset();
+    match Storage::<D>::with_data(data) {
+        Ok(s) => {
+            c07_table_inside_file(&s);
+            let mut i = 0u64;
+            while i < 5 {
+                let r = s.value_size(StorageIndex(i));
+                std::mem::forget(r);
+                let r = s.value_as_bytes(StorageIndex(i));
+                std::mem::forget(r);
+                i += 1;
+            }
+            let offset: u64 = kani::any();
+            let size: u64 = kani::any();
+            let r = s.value_as_bytes_at(StorageIndex(probe), offset);
+            std::mem::forget(r);
+            let r = s.value_as_bytes_at_size(StorageIndex(probe), offset, size);
+            std::mem::forget(r);
+            std::mem::forget(s);
+            true
+        }
+        Err(e) => {
+            std::mem::forget(e);
+            false
+        }
+    }
+}
+
+/// What a successful open must guarantee for later reads: every record of the
+/// table lies inside the file.
+pub(crate) fn c07_table_inside_file<D: StorageData>(s: &Storage<D>) {
+    let mut index = 0u64;
+    while index < 5 {
+        match s.records.record(index) {
+            Ok(r) => {
+                let end = r.pos.checked_add(STORAGE_RECORD_SIZE).and_then(|v| v.checked_add(r.size));
+                assert!(
+                    matches!(end, Some(e) if e <= s.len()),
+                    "opened storage has a record that extends past the end of the file"
+                );
+            }
+            Err(e) => std::mem::forget(e),
+        }
+        index += 1;
+    }
+}
+
+//@ id=C32 tier=quick timeout=900 cbmc="--max-field-sensitivity-array-size 200" args="--no-assertion-reach-checks" bounds="storage [A:8][free 33][C:8][D:1]; insert_bytes of 17 bytes (split of the free region); fail_at enumerated 0..=3 over the 3 back-end write/resize calls of the operation (and no failure), each on a fresh storage; stored bytes symbolic; free index = contract model" desc="if insert_bytes returns Err because a back-end write/resize failed, the transaction nesting counter is back at 0 and a following successful insert reaches StorageData::flush; without failure the operation flushes exactly once" kernel="Storage::insert_bytes,Storage::transaction,Storage::begin_transaction,Storage::commit,Storage::end_transaction"
+#[kani::proof]
+#[kani::stub(std::fmt::format, crate::verif_support::fmt_stub)]
+#[kani::stub(crate::DbError::new, crate::verif_support::dberror_new_stub)]
+#[kani::stub(crate::storage::storage_records::StorageRecords::take_free, crate::storage::storage_records::verif_h::c04_take_free_model)]
+#[kani::stub(crate::storage::storage_records::StorageRecords::take_free_after, crate::storage::storage_records::verif_h::c04_take_free_after_model)]
+#[kani::stub(crate::storage::storage_records::StorageRecords::mark_free_compact, crate::storage::storage_records::verif_h::c04_mark_free_compact_model)]
+#[kani::stub(crate::storage::storage_records::StorageRecords::mark_free, crate::storage::storage_records::verif_h::c04_mark_free_model)]
+#[kani::stub(crate::storage::storage_records::StorageRecords::clear_free, crate::storage::storage_records::verif_h::c04_clear_free_model)]
+#[kani::stub(crate::storage::storage_records::StorageRecords::free_size, crate::storage::storage_records::verif_h::c04_free_size_model)]
+#[kani::stub(alloc::slice::stable_sort, c04_stable_sort_stub)]
+#[kani::unwind(50)]
+fn c32_fail_insert() {
+    let mut seen_first = false;
+    let mut seen_last = false;
+    let mut seen_none = false;
+    let mut k: u32 = 0;
+    while k <= 3 {
+        let (mut s, _m) = c04_prefix(1);
+        let payload: [u8; C04_MAXP] = kani::any();
+        let fail_at = c32_arm(&mut s, k);
+        let r = s.insert_bytes(&payload[..17]);
+        let (failed, calls) = c32_after(&mut s, r, fail_at);
+        seen_first |= failed && fail_at == 0;
+        seen_last |= failed && fail_at + 1 == 3;
+        seen_none |= !failed && calls == 3;
+        std::mem::forget(s);
+        k += 1;
+    }
+    kani::cover!(seen_first, "first back-end call of the operation fails");
+    kani::cover!(seen_last, "last back-end call of the operation fails");
+    kani::cover!(seen_none, "no failure injected");
+    kani::cover!(true, "end of harness reachable");
+}
+
+//@ id=C32 tier=quick timeout=900 cbmc="--max-field-sensitivity-array-size 200" args="--no-assertion-reach-checks" bounds="storage [A:8][free 33][C:8][D:1]; insert_bytes_at(A, offset 4, 8 bytes) (grows in place); fail_at enumerated 0..=4 over the 4 back-end write/resize calls of the operation (and no failure), each on a fresh storage; stored bytes symbolic; free index = contract model" desc="if insert_bytes_at(A, returns Err because a back-end write/resize failed, the transaction nesting counter is back at 0 and a following successful insert reaches StorageData::flush; without failure the operation flushes exactly once" kernel="Storage::insert_bytes_at,Storage::ensure_size,Storage::enlarge_in_place,Storage::transaction,Storage::begin_transaction,Storage::commit,Storage::end_transaction"
+#[kani::proof]
+#[kani::stub(std::fmt::format, crate::verif_support::fmt_stub)]
+#[kani::stub(crate::DbError::new, crate::verif_support::dberror_new_stub)]
+#[kani::stub(crate::storage::storage_records::StorageRecords::take_free, crate::storage::storage_records::verif_h::c04_take_free_model)]
+#[kani::stub(crate::storage::storage_records::StorageRecords::take_free_after, crate::storage::storage_records::verif_h::c04_take_free_after_model)]
+#[kani::stub(crate::storage::storage_records::StorageRecords::mark_free_compact, crate::storage::storage_records::verif_h::c04_mark_free_compact_model)]
+#[kani::stub(crate::storage::storage_records::StorageRecords::mark_free, crate::storage::storage_records::verif_h::c04_mark_free_model)]
+#[kani::stub(crate::storage::storage_records::StorageRecords::clear_free, crate::storage::storage_records::verif_h::c04_clear_free_model)]
+#[kani::stub(crate::storage::storage_records::StorageRecords::free_size, crate::storage::storage_records::verif_h::c04_free_size_model)]
+#[kani::stub(alloc::slice::stable_sort, c04_stable_sort_stub)]
+#[kani::unwind(50)]
+fn c32_fail_write_at() {
+    let mut seen_first = false;
+    let mut seen_last = false;
+    let mut seen_none = false;
+    let mut k: u32 = 0;
+    while k <= 4 {
+        let (mut s, _m) = c04_prefix(1);
+        let payload: [u8; C04_MAXP] = kani::any();
+        let fail_at = c32_arm(&mut s, k);
+        let r = s.insert_bytes_at(StorageIndex(1), 4, &payload[..8]);
+        let (failed, calls) = c32_after(&mut s, r, fail_at);
+        seen_first |= failed && fail_at == 0;
+        seen_last |= failed && fail_at + 1 == 4;
+        seen_none |= !failed && calls == 4;
+        std::mem::forget(s);
+        k += 1;
+    }
+    kani::cover!(seen_first, "first back-end call of the operation fails");
+    kani::cover!(seen_last, "last back-end call of the operation fails");
+    kani::cover!(seen_none, "no failure injected");
+    kani::cover!(true, "end of harness reachable");
+}
+
+//@ id=C32 tier=quick timeout=900 cbmc="--max-field-sensitivity-array-size 200" args="--no-assertion-reach-checks" bounds="storage [A:8][free 33][C:8][D:1]; replace_with_bytes(A, 33 bytes) (nested transactions, grows in place); fail_at enumerated 0..=4 over the 4 back-end write/resize calls of the operation (and no failure), each on a fresh storage; stored bytes symbolic; free index = contract model" desc="if replace_with_bytes(A, returns Err because a back-end write/resize failed, the transaction nesting counter is back at 0 and a following successful insert reaches StorageData::flush; without failure the operation flushes exactly once" kernel="Storage::replace_with_bytes,Storage::insert_bytes_at,Storage::resize_value,Storage::transaction,Storage::begin_transaction,Storage::commit,Storage::end_transaction"
+#[kani::proof]
+#[kani::stub(std::fmt::format, crate::verif_support::fmt_stub)]
+#[kani::stub(crate::DbError::new, crate::verif_support::dberror_new_stub)]
+#[kani::stub(crate::storage::storage_records::StorageRecords::take_free, crate::storage::storage_records::verif_h::c04_take_free_model)]
+#[kani::stub(crate::storage::storage_records::StorageRecords::take_free_after, crate::storage::storage_records::verif_h::c04_take_free_after_model)]
+#[kani::stub(crate::storage::storage_records::StorageRecords::mark_free_compact, crate::storage::storage_records::verif_h::c04_mark_free_compact_model)]
+#[kani::stub(crate::storage::storage_records::StorageRecords::mark_free, crate::storage::storage_records::verif_h::c04_mark_free_model)]
+#[kani::stub(crate::storage::storage_records::StorageRecords::clear_free, crate::storage::storage_records::verif_h::c04_clear_free_model)]
+#[kani::stub(crate::storage::storage_records::StorageRecords::free_size, crate::storage::storage_records::verif_h::c04_free_size_model)]
+#[kani::stub(alloc::slice::stable_sort, c04_stable_sort_stub)]
+#[kani::unwind(50)]
+fn c32_fail_replace() {
+    let mut seen_first = false;
+    let mut seen_last = false;
+    let mut seen_none = false;
+    let mut k: u32 = 0;
+    while k <= 4 {
+        let (mut s, _m) = c04_prefix(1);
+        let payload: [u8; C04_MAXP] = kani::any();
+        let fail_at = c32_arm(&mut s, k);
+        let r = s.replace_with_bytes(StorageIndex(1), &payload[..33]);
+        let (failed, calls) = c32_after(&mut s, r, fail_at);
+        seen_first |= failed && fail_at == 0;
+        seen_last |= failed && fail_at + 1 == 4;
+        seen_none |= !failed && calls == 4;
+        std::mem::forget(s);
+        k += 1;
+    }
+    kani::cover!(seen_first, "first back-end call of the operation fails");
+    kani::cover!(seen_last, "last back-end call of the operation fails");
+    kani::cover!(seen_none, "no failure injected");
+    kani::cover!(true, "end of harness reachable");
+}
+
+//@ id=C32 tier=quick timeout=900 cbmc="--max-field-sensitivity-array-size 200" args="--no-assertion-reach-checks" bounds="storage [A:8][free 33][C:8][D:1]; resize_value(C, 32) (moves to the end); fail_at enumerated 0..=3 over the 3 back-end write/resize calls of the operation (and no failure), each on a fresh storage; stored bytes symbolic; free index = contract model" desc="if resize_value(C, returns Err because a back-end write/resize failed, the transaction nesting counter is back at 0 and a following successful insert reaches StorageData::flush; without failure the operation flushes exactly once" kernel="Storage::resize_value,Storage::enlarge_value,Storage::move_to_end,Storage::transaction,Storage::begin_transaction,Storage::commit,Storage::end_transaction"
+#[kani::proof]
+#[kani::stub(std::fmt::format, crate::verif_support::fmt_stub)]
+#[kani::stub(crate::DbError::new, crate::verif_support::dberror_new_stub)]
+#[kani::stub(crate::storage::storage_records::StorageRecords::take_free, crate::storage::storage_records::verif_h::c04_take_free_model)]
+#[kani::stub(crate::storage::storage_records::StorageRecords::take_free_after, crate::storage::storage_records::verif_h::c04_take_free_after_model)]
+#[kani::stub(crate::storage::storage_records::StorageRecords::mark_free_compact, crate::storage::storage_records::verif_h::c04_mark_free_compact_model)]
+#[kani::stub(crate::storage::storage_records::StorageRecords::mark_free, crate::storage::storage_records::verif_h::c04_mark_free_model)]
+#[kani::stub(crate::storage::storage_records::StorageRecords::clear_free, crate::storage::storage_records::verif_h::c04_clear_free_model)]
+#[kani::stub(crate::storage::storage_records::StorageRecords::free_size, crate::storage::storage_records::verif_h::c04_free_size_model)]
+#[kani::stub(alloc::slice::stable_sort, c04_stable_sort_stub)]
+#[kani::unwind(50)]
+fn c32_fail_resize_value() {
+    let mut seen_first = false;
+    let mut seen_last = false;
+    let mut seen_none = false;
+    let mut k: u32 = 0;
+    while k <= 3 {
+        let (mut s, _m) = c04_prefix(1);
+        let payload: [u8; C04_MAXP] = kani::any();
+        let fail_at = c32_arm(&mut s, k);
+        let r = s.resize_value(StorageIndex(3), 32);
+        let (failed, calls) = c32_after(&mut s, r, fail_at);
+        seen_first |= failed && fail_at == 0;
+        seen_last |= failed && fail_at + 1 == 3;
+        seen_none |= !failed && calls == 3;
+        std::mem::forget(s);
+        k += 1;
+    }
+    kani::cover!(seen_first, "first back-end call of the operation fails");
+    kani::cover!(seen_last, "last back-end call of the operation fails");
+    kani::cover!(seen_none, "no failure injected");
+    kani::cover!(true, "end of harness reachable");
+}
+
+//@ id=C32 tier=quick timeout=900 cbmc="--max-field-sensitivity-array-size 200" args="--no-assertion-reach-checks" bounds="storage [A:8][free 33][C:8][D:1]; move_at(A, 0 -> 8, 8 bytes) (nested, grows in place, erases source); fail_at enumerated 0..=5 over the 5 back-end write/resize calls of the operation (and no failure), each on a fresh storage; stored bytes symbolic; free index = contract model" desc="if move_at(A, returns Err because a back-end write/resize failed, the transaction nesting counter is back at 0 and a following successful insert reaches StorageData::flush; without failure the operation flushes exactly once" kernel="Storage::move_at,Storage::insert_bytes_at,Storage::erase_bytes,Storage::transaction,Storage::begin_transaction,Storage::commit,Storage::end_transaction"
+#[kani::proof]
+#[kani::stub(std::fmt::format, crate::verif_support::fmt_stub)]
+#[kani::stub(crate::DbError::new, crate::verif_support::dberror_new_stub)]
+#[kani::stub(crate::storage::storage_records::StorageRecords::take_free, crate::storage::storage_records::verif_h::c04_take_free_model)]
+#[kani::stub(crate::storage::storage_records::StorageRecords::take_free_after, crate::storage::storage_records::verif_h::c04_take_free_after_model)]
+#[kani::stub(crate::storage::storage_records::StorageRecords::mark_free_compact, crate::storage::storage_records::verif_h::c04_mark_free_compact_model)]
+#[kani::stub(crate::storage::storage_records::StorageRecords::mark_free, crate::storage::storage_records::verif_h::c04_mark_free_model)]
+#[kani::stub(crate::storage::storage_records::StorageRecords::clear_free, crate::storage::storage_records::verif_h::c04_clear_free_model)]
+#[kani::stub(crate::storage::storage_records::StorageRecords::free_size, crate::storage::storage_records::verif_h::c04_free_size_model)]
+#[kani::stub(alloc::slice::stable_sort, c04_stable_sort_stub)]
+#[kani::unwind(50)]
+fn c32_fail_move_at() {
+    let mut seen_first = false;
+    let mut seen_last = false;
+    let mut seen_none = false;
+    let mut k: u32 = 0;
+    while k <= 5 {
+        let (mut s, _m) = c04_prefix(1);
+        let payload: [u8; C04_MAXP] = kani::any();
+        let fail_at = c32_arm(&mut s, k);
+        let r = s.move_at(StorageIndex(1), 0, 8, 8);
+        let (failed, calls) = c32_after(&mut s, r, fail_at);
+        seen_first |= failed && fail_at == 0;
+        seen_last |= failed && fail_at + 1 == 5;
+        seen_none |= !failed && calls == 5;
+        std::mem::forget(s);
+        k += 1;
+    }
+    kani::cover!(seen_first, "first back-end call of the operation fails");
+    kani::cover!(seen_last, "last back-end call of the operation fails");
+    kani::cover!(seen_none, "no failure injected");
+    kani::cover!(true, "end of harness reachable");
+}
+
+//@ id=C32 tier=quick timeout=900 cbmc="--max-field-sensitivity-array-size 200" args="--no-assertion-reach-checks" bounds="storage [A:8][free 33][C:8][D:1]; remove(C) (free record written); fail_at enumerated 0..=1 over the 1 back-end write/resize calls of the operation (and no failure), each on a fresh storage; stored bytes symbolic; free index = contract model" desc="if remove(C) returns Err because a back-end write/resize failed, the transaction nesting counter is back at 0 and a following successful insert reaches StorageData::flush; without failure the operation flushes exactly once" kernel="Storage::remove,Storage::free_a_region,Storage::transaction,Storage::begin_transaction,Storage::commit,Storage::end_transaction"
+#[kani::proof]
+#[kani::stub(std::fmt::format, crate::verif_support::fmt_stub)]
+#[kani::stub(crate::DbError::new, crate::verif_support::dberror_new_stub)]
+#[kani::stub(crate::storage::storage_records::StorageRecords::take_free, crate::storage::storage_records::verif_h::c04_take_free_model)]
+#[kani::stub(crate::storage::storage_records::StorageRecords::take_free_after, crate::storage::storage_records::verif_h::c04_take_free_after_model)]
+#[kani::stub(crate::storage::storage_records::StorageRecords::mark_free_compact, crate::storage::storage_records::verif_h::c04_mark_free_compact_model)]
+#[kani::stub(crate::storage::storage_records::StorageRecords::mark_free, crate::storage::storage_records::verif_h::c04_mark_free_model)]
+#[kani::stub(crate::storage::storage_records::StorageRecords::clear_free, crate::storage::storage_records::verif_h::c04_clear_free_model)]
+#[kani::stub(crate::storage::storage_records::StorageRecords::free_size, crate::storage::storage_records::verif_h::c04_free_size_model)]
+#[kani::stub(alloc::slice::stable_sort, c04_stable_sort_stub)]
+#[kani::unwind(50)]
+fn c32_fail_remove_mid() {
+    let mut seen_first = false;
+    let mut seen_last = false;
+    let mut seen_none = false;
+    let mut k: u32 = 0;
+    while k <= 1 {
+        let (mut s, _m) = c04_prefix(1);
+        let payload: [u8; C04_MAXP] = kani::any();
+        let fail_at = c32_arm(&mut s, k);
+        let r = s.remove(StorageIndex(3));
+        let (failed, calls) = c32_after(&mut s, r, fail_at);
+        seen_first |= failed && fail_at == 0;
+        seen_last |= failed && fail_at + 1 == 1;
+        seen_none |= !failed && calls == 1;
+        std::mem::forget(s);
+        k += 1;
+    }
+    kani::cover!(seen_first, "first back-end call of the operation fails");
+    kani::cover!(seen_last, "last back-end call of the operation fails");
+    kani::cover!(seen_none, "no failure injected");
+    kani::cover!(true, "end of harness reachable");
+}
+
+//@ id=C32 tier=quick timeout=900 cbmc="--max-field-sensitivity-array-size 200" args="--no-assertion-reach-checks" bounds="storage [A:8][free 33][C:8][D:1]; remove(D) (file truncated); fail_at enumerated 0..=1 over the 1 back-end write/resize calls of the operation (and no failure), each on a fresh storage; stored bytes symbolic; free index = contract model" desc="if remove(D) returns Err because a back-end write/resize failed, the transaction nesting counter is back at 0 and a following successful insert reaches StorageData::flush; without failure the operation flushes exactly once" kernel="Storage::remove,Storage::truncate,Storage::transaction,Storage::begin_transaction,Storage::commit,Storage::end_transaction"
+#[kani::proof]
+#[kani::stub(std::fmt::format, crate::verif_support::fmt_stub)]
+#[kani::stub(crate::DbError::new, crate::verif_support::dberror_new_stub)]
+#[kani::stub(crate::storage::storage_records::StorageRecords::take_free, crate::storage::storage_records::verif_h::c04_take_free_model)]
+#[kani::stub(crate::storage::storage_records::StorageRecords::take_free_after, crate::storage::storage_records::verif_h::c04_take_free_after_model)]
+#[kani::stub(crate::storage::storage_records::StorageRecords::mark_free_compact, crate::storage::storage_records::verif_h::c04_mark_free_compact_model)]
+#[kani::stub(crate::storage::storage_records::StorageRecords::mark_free, crate::storage::storage_records::verif_h::c04_mark_free_model)]
+#[kani::stub(crate::storage::storage_records::StorageRecords::clear_free, crate::storage::storage_records::verif_h::c04_clear_free_model)]
+#[kani::stub(crate::storage::storage_records::StorageRecords::free_size, crate::storage::storage_records::verif_h::c04_free_size_model)]
+#[kani::stub(alloc::slice::stable_sort, c04_stable_sort_stub)]
+#[kani::unwind(50)]
+fn c32_fail_remove_end() {
+    let mut seen_first = false;
+    let mut seen_last = false;
+    let mut seen_none = false;
+    let mut k: u32 = 0;
+    while k <= 1 {
+        let (mut s, _m) = c04_prefix(1);
+        let payload: [u8; C04_MAXP] = kani::any();
+        let fail_at = c32_arm(&mut s, k);
+        let r = s.remove(StorageIndex(4));
+        let (failed, calls) = c32_after(&mut s, r, fail_at);
+        seen_first |= failed && fail_at == 0;
+        seen_last |= failed && fail_at + 1 == 1;
+        seen_none |= !failed && calls == 1;
+        std::mem::forget(s);
+        k += 1;
+    }
+    kani::cover!(seen_first, "first back-end call of the operation fails");
+    kani::cover!(seen_last, "last back-end call of the operation fails");
+    kani::cover!(seen_none, "no failure injected");
+    kani::cover!(true, "end of harness reachable");
+}
+
+//@ id=C32 tier=quick timeout=900 cbmc="--max-field-sensitivity-array-size 200" args="--no-assertion-reach-checks" bounds="storage [free 8][A:1]; optimize_storage ( the value moves, file truncated); fail_at enumerated 0..=3 over the 3 back-end write/resize calls of the operation (and no failure), each on a fresh storage; stored bytes symbolic; free index = contract model" desc="if optimize_storage returns Err because a back-end write/resize failed, the transaction nesting counter is back at 0 and a following successful insert reaches StorageData::flush; without failure the operation flushes exactly once" kernel="Storage::optimize_storage,Storage::shrink_index,Storage::truncate,Storage::transaction,Storage::begin_transaction,Storage::commit,Storage::end_transaction"
+#[kani::proof]
+#[kani::stub(std::fmt::format, crate::verif_support::fmt_stub)]
+#[kani::stub(crate::DbError::new, crate::verif_support::dberror_new_stub)]
+#[kani::stub(crate::storage::storage_records::StorageRecords::take_free, crate::storage::storage_records::verif_h::c04_take_free_model)]
+#[kani::stub(crate::storage::storage_records::StorageRecords::take_free_after, crate::storage::storage_records::verif_h::c04_take_free_after_model)]
+#[kani::stub(crate::storage::storage_records::StorageRecords::mark_free_compact, crate::storage::storage_records::verif_h::c04_mark_free_compact_model)]
+#[kani::stub(crate::storage::storage_records::StorageRecords::mark_free, crate::storage::storage_records::verif_h::c04_mark_free_model)]
+#[kani::stub(crate::storage::storage_records::StorageRecords::clear_free, crate::storage::storage_records::verif_h::c04_clear_free_model)]
+#[kani::stub(crate::storage::storage_records::StorageRecords::free_size, crate::storage::storage_records::verif_h::c04_free_size_model)]
+#[kani::stub(alloc::slice::stable_sort, c04_stable_sort_stub)]
+#[kani::unwind(50)]
+fn c32_fail_optimize() {
+    let mut seen_first = false;
+    let mut seen_last = false;
+    let mut seen_none = false;
+    let mut k: u32 = 0;
+    while k <= 3 {
+        let (mut s, _m) = c04_prefix(6);
+        let payload: [u8; C04_MAXP] = kani::any();
+        let fail_at = c32_arm(&mut s, k);
+        let r = s.optimize_storage();
+        let (failed, calls) = c32_after(&mut s, r, fail_at);
+        seen_first |= failed && fail_at == 0;
+        seen_last |= failed && fail_at + 1 == 3;
+        seen_none |= !failed && calls == 3;
+        std::mem::forget(s);
+        k += 1;
+    }
+    kani::cover!(seen_first, "first back-end call of the operation fails");
+    kani::cover!(seen_last, "last back-end call of the operation fails");
+    kani::cover!(seen_none, "no failure injected");
+    kani::cover!(true, "end of harness reachable");
+}
+
+//@ id=C07 tier=quick timeout=900 cbmc="--max-field-sensitivity-array-size 200" args="--no-assertion-reach-checks" bounds="valid image [version][index 1: 8 bytes][index 3: 1 byte] (65 bytes), value bytes symbolic, truncated at the lengths 0 15 24 40 44 47 64 65 (the points where ArrStorage, which does not bound reads by the file length, can still tell: record value cut short); back end ArrStorage (its reads are bounded by the 192-byte array, not by the file length); read arguments: all u64; free index = contract model" desc="Storage::with_data on a truncated file returns Ok or Err without panic or overflow; if it opens, every record of the table lies inside the file and every read entry point returns Ok or Err" kernel="Storage::with_data,Storage::read_records,Storage::read_record,Storage::extract_version,Storage::validate_or_update_version,StorageRecords::set_record,StorageRecords::rebuild_free_index,StorageRecords::record,Storage::value_size,Storage::value_as_bytes,Storage::value_as_bytes_at,Storage::value_as_bytes_at_size,Storage::validate_read_size"
+#[kani::proof]
+#[kani::stub(std::fmt::format, crate::verif_support::fmt_stub)]
+#[kani::stub(crate::DbError::new, crate::verif_support::dberror_new_stub)]
+#[kani::stub(crate::storage::storage_records::StorageRecords::take_free, crate::storage::storage_records::verif_h::c04_take_free_model)]
+#[kani::stub(crate::storage::storage_records::StorageRecords::take_free_after, crate::storage::storage_records::verif_h::c04_take_free_after_model)]
+#[kani::stub(crate::storage::storage_records::StorageRecords::mark_free_compact, crate::storage::storage_records::verif_h::c04_mark_free_compact_model)]
+#[kani::stub(crate::storage::storage_records::StorageRecords::mark_free, crate::storage::storage_records::verif_h::c04_mark_free_model)]
+#[kani::stub(crate::storage::storage_records::StorageRecords::clear_free, crate::storage::storage_records::verif_h::c04_clear_free_model)]
+#[kani::stub(crate::storage::storage_records::StorageRecords::free_size, crate::storage::storage_records::verif_h::c04_free_size_model)]
+#[kani::stub(alloc::slice::stable_sort, c04_stable_sort_stub)]
+#[kani::stub(<crate::DbError as std::convert::From<std::array::TryFromSliceError>>::from, crate::verif_support::sliceerr_stub)]
+#[kani::unwind(10)]
+fn c07_arr_truncated() {
+    let img = c07_valid_image();
+    // symbolic choice of the truncation point, one concrete run per point (a
+    // panic at one length must not hide the others)
+    let points: [usize; 8] = [0, 15, 24, 40, 44, 47, 64, 65];
+    let pick: usize = kani::any();
+    kani::assume(pick < 8);
+    let mut opened = false;
+    let mut k = 0usize;
+    while k < 8 {
+        if pick == k {
+            opened = c07_open_case(c07_arr(&img, points[k]), 1);
+        }
+        k += 1;
+    }
+    kani::cover!(opened && pick == 7, "the untruncated file opens");
+    kani::cover!(true, "end of harness reachable");
+}
+
+//@ id=C07 tier=quick timeout=900 cbmc="--max-field-sensitivity-array-size 200" args="--no-assertion-reach-checks" bounds="valid image [version][index 1: 8 bytes][index 3: 1 byte] (65 bytes), value bytes symbolic, with the size field of the last record (1 byte remains in the file) replaced by 2, 17, 33, 34, 2^63, 2^64-1 (symbolic choice, concrete run each) or left at 1; back end ArrStorage; free index = contract model" desc="Storage::with_data on a file whose last record claims more bytes than the file holds returns Ok or Err without panic or overflow; if it opens, every record of the table lies inside the file and every read entry point returns Ok or Err" kernel="Storage::with_data,Storage::read_records,Storage::read_record,Storage::extract_version,Storage::validate_or_update_version,StorageRecords::set_record,StorageRecords::rebuild_free_index,StorageRecords::record,Storage::value_size,Storage::value_as_bytes,Storage::value_as_bytes_at,Storage::value_as_bytes_at_size,Storage::validate_read_size"
+#[kani::proof]
+#[kani::stub(std::fmt::format, crate::verif_support::fmt_stub)]
+#[kani::stub(crate::DbError::new, crate::verif_support::dberror_new_stub)]
+#[kani::stub(crate::storage::storage_records::StorageRecords::take_free, crate::storage::storage_records::verif_h::c04_take_free_model)]
+#[kani::stub(crate::storage::storage_records::StorageRecords::take_free_after, crate::storage::storage_records::verif_h::c04_take_free_after_model)]
+#[kani::stub(crate::storage::storage_records::StorageRecords::mark_free_compact, crate::storage::storage_records::verif_h::c04_mark_free_compact_model)]
+#[kani::stub(crate::storage::storage_records::StorageRecords::mark_free, crate::storage::storage_records::verif_h::c04_mark_free_model)]
+#[kani::stub(crate::storage::storage_records::StorageRecords::clear_free, crate::storage::storage_records::verif_h::c04_clear_free_model)]
+#[kani::stub(crate::storage::storage_records::StorageRecords::free_size, crate::storage::storage_records::verif_h::c04_free_size_model)]
+#[kani::stub(alloc::slice::stable_sort, c04_stable_sort_stub)]
+#[kani::stub(<crate::DbError as std::convert::From<std::array::TryFromSliceError>>::from, crate::verif_support::sliceerr_stub)]
+#[kani::unwind(10)]
+fn c07_arr_bad_record_size() {
+    let base = c07_valid_image();
+    let cases: [u64; 7] = [1, 2, 17, 33, 34, 1 << 63, u64::MAX];
+    let pick: usize = kani::any();
+    kani::assume(pick < 7);
+    let mut opened = false;
+    let mut k = 0usize;
+    while k < 7 {
+        if pick == k {
+            let mut img = base;
+            c07_put64(&mut img, C07_F_REC2_SIZE, cases[k]);
+            opened = c07_open_case(c07_arr(&img, C07_VALID_LEN), 3);
+        }
+        k += 1;
+    }
+    kani::cover!(opened && pick == 0, "the undamaged file opens");
+    kani::cover!(!opened && pick == 6, "a size of 2^64-1 is rejected");
+    kani::cover!(true, "end of harness reachable");
+}
+
